@@ -1,6 +1,6 @@
 import A2lVerif.Model.Merge
-/-! Lemmas about the merge model (`A2l.Mg`): fresh names, the `A' ++ new` shape, names per namespace, the invariant that
-    tracks B's nodes through the renames, and the special cases (B empty, B = A, A empty). -/
+/-! Lemmas about the merge model (`A2l.Mg`): fresh names, the `A' ++ new` shape, names per namespace, the fixpoint loop of
+    the plan step, the invariant that tracks B's nodes through the renames, and the special cases (B empty, B = A, A empty). -/
 namespace A2l.Mg
 
 /-! ### fresh names (`make_unique_name`) -/
@@ -382,27 +382,6 @@ theorem ext_mergeUserRights (st : St) : Ext st.a (mergeUserRights st).a := by
 
 theorem Ext.step {a : Module} {st : St} (h : Ext a st.a) (f : St → St) (hf : ∀ s : St, Ext s.a (f s).a) :
     Ext a (f st).a := h.trans (hf st)
-
-/-- every pass of `merge_modules` keeps the nodes that are already in A, in place -/
-theorem ext_mergeSt (a b : Module) : Ext a (mergeSt a b).a := by
-  have h : Ext a (St.a ⟨a, b, []⟩) := Ext.refl a
-  have h := h.step (takeOpt "A2ML") (ext_takeOpt _)
-  have h := h.step mergeModPar ext_mergeModPar
-  have h := h.step (takeAll "IF_DATA") (ext_takeAll _)
-  have h := (h.step (planNs .unit) (ext_planNs _)).step (applyNs .unit) (ext_applyNs _)
-  have h := (h.step (planNs .compuTab) (ext_planNs _)).step (applyNs .compuTab) (ext_applyNs _)
-  have h := (h.step (planNs .compuMethod) (ext_planNs _)).step (applyNs .compuMethod) (ext_applyNs _)
-  have h := (h.step (planNs .recordLayout) (ext_planNs _)).step (applyNs .recordLayout) (ext_applyNs _)
-  have h := h.step (takeOpt "MOD_COMMON") (ext_takeOpt _)
-  have h := (h.step (planNs .object) (ext_planNs _)).step (planNs .typedef) (ext_planNs _)
-  have h := (h.step (applyNs .object) (ext_applyNs _)).step (applyNs .typedef) (ext_applyNs _)
-  have h := h.step (mergeByName "FUNCTION" functionSites) (ext_mergeByName _ _ (.inl rfl))
-  have h := h.step (mergeByName "GROUP" groupSites) (ext_mergeByName _ _ (.inr rfl))
-  have h := (h.step (planNs .frame) (ext_planNs _)).step (applyNs .frame) (ext_applyNs _)
-  have h := (h.step (planNs .transformer) (ext_planNs _)).step (applyNs .transformer) (ext_applyNs _)
-  have h := h.step mergeUserRights ext_mergeUserRights
-  have h := h.step (takeOpt "VARIANT_CODING") (ext_takeOpt _)
-  exact h
 
 /-! ### namespaces -/
 
@@ -1094,29 +1073,8 @@ theorem PlanFacts.empty (On Mn : List String) : PlanFacts ⟨[], []⟩ On Mn whe
   fresh _ _ _ hf := by cases hf
   add _ _ ha := by cases ha
 
-theorem nuinv_mergeSt {a b : Module} (ha : UniqueNames a) (hb : UniqueNames b) : NUInv (mergeSt a b) := by
-  have h : NUInv ⟨a, b, []⟩ := ⟨ha, hb, fun ns => PlanFacts.empty _ _⟩
-  have h := nuinv_takeOpt (tag := "A2ML") (noNs_of_decide (by decide)) h
-  have h := nuinv_mergeModPar h
-  have h := nuinv_takeAll (tag := "IF_DATA") (noNs_of_decide (by decide)) h
-  have h := nuinv_applyNs .unit (nuinv_planNs .unit h)
-  have h := nuinv_applyNs .compuTab (nuinv_planNs .compuTab h)
-  have h := nuinv_applyNs .compuMethod (nuinv_planNs .compuMethod h)
-  have h := nuinv_applyNs .recordLayout (nuinv_planNs .recordLayout h)
-  have h := nuinv_takeOpt (tag := "MOD_COMMON") (noNs_of_decide (by decide)) h
-  have h := nuinv_planNs .typedef (nuinv_planNs .object h)
-  have h := nuinv_applyNs .typedef (nuinv_applyNs .object h)
-  have h := nuinv_mergeByName .function functionSites rfl h
-  have h := nuinv_mergeByName .group groupSites rfl h
-  have h := nuinv_applyNs .frame (nuinv_planNs .frame h)
-  have h := nuinv_applyNs .transformer (nuinv_planNs .transformer h)
-  have h := nuinv_mergeUserRights h
-  have h := nuinv_takeOpt (tag := "VARIANT_CODING") (noNs_of_decide (by decide)) h
-  exact h
 
-
-/-! ## The invariant that tracks B's nodes through the renames (C08 `b_represented`, C09) -/
-
+/-! ## All renames seen as one map on B's nodes -/
 
 /-! ### the renames seen as one map on B's nodes -/
 
@@ -1312,24 +1270,931 @@ theorem mem_updFirst {q : Node → Bool} {f : Node → Node} : ∀ {m : Module} 
         · exact .inl (List.mem_cons_of_mem _ h)
         · exact .inr ⟨y0, List.mem_cons_of_mem _ h0, h1, h2⟩
 
+
+
+/-! ## The fixpoint loop -/
+
+
+/-! ### the fixpoint loop (`planLoop`) -/
+
+theorem Tbl.get_cons {α} (k : String) (v : α) (t : Tbl α) (n : String) :
+    Tbl.get ((k, v) :: t) n = if k = n then some v else Tbl.get t n := Tbl.get_insert t k v n
+
+theorem Tbl.get_append {α} (t₁ t₂ : Tbl α) (n : String) :
+    Tbl.get (t₁ ++ t₂) n = match Tbl.get t₁ n with | some v => some v | none => Tbl.get t₂ n := by
+  induction t₁ with
+  | nil => rfl
+  | cons kv t ih =>
+    obtain ⟨k, v⟩ := kv
+    rw [List.cons_append, Tbl.get_cons, Tbl.get_cons]
+    by_cases e : k = n
+    · simp [e]
+    · simp only [e, if_false]; exact ih
+
+theorem retainNew_get (table new : Tbl String) (k : String) :
+    (retainNew table new).get k = if (table.get k).isNone then new.get k else none := by
+  unfold retainNew
+  induction new with
+  | nil => show none = _; split <;> rfl
+  | cons kv t ih =>
+    obtain ⟨k', v⟩ := kv
+    rw [List.filter_cons]
+    by_cases e : k' = k
+    · subst e
+      cases hg : (table.get k').isNone with
+      | true => simp [Tbl.get_cons]
+      | false =>
+        simp only [Bool.false_eq_true, if_false]
+        rw [ih, hg]; simp
+    · split
+      · rw [Tbl.get_cons, Tbl.get_cons, if_neg e, if_neg e]; exact ih
+      · rw [Tbl.get_cons, if_neg e]; exact ih
+
+theorem forceTrue_get (table : Tbl String) : ∀ (act : Tbl Bool) (n : String),
+    (forceTrue table act).get n = if (table.get n).isSome then some true else act.get n := by
+  induction table with
+  | nil => intro act n; rfl
+  | cons kv t ih =>
+    intro act n
+    obtain ⟨k, v⟩ := kv
+    show (forceTrue t (act.insert k true)).get n = _
+    rw [ih, Tbl.get_insert, Tbl.get_cons]
+    by_cases e : k = n
+    · simp [e]
+    · simp [e]
+
+/-- all renames seen as one map: the table `T ns` is applied to the fields covered by `ns` -/
+def renWith (T : Ns → Tbl String) (n : Node) : Node :=
+  { n with refs := n.refs.map fun r =>
+      match coveredNs n.tag r.site with
+      | some ns => { r with target := (T ns).app r.target }
+      | none => r }
+
+theorem renAll_eq_renWith (P : List (Ns × Plan)) (n : Node) : renAll P n = renWith (fun ns => (planOf P ns).ren) n := rfl
+
+@[simp] theorem renWith_tag (T) (n : Node) : (renWith T n).tag = n.tag := rfl
+@[simp] theorem renWith_name (T) (n : Node) : (renWith T n).name = n.name := rfl
+
+theorem renWith_congr {T T' : Ns → Tbl String} {n : Node}
+    (h : ∀ site ns, coveredNs n.tag site = some ns → ∀ s, (T ns).app s = (T' ns).app s) : renWith T n = renWith T' n := by
+  simp only [renWith]
+  congr 1
+  apply List.map_congr_left
+  intro r _
+  cases hc : coveredNs n.tag r.site with
+  | none => rfl
+  | some ns => simp only [h r.site ns hc]
+
+/-- one more `rename_*` call with the new renames `new` of a round extends the table of `ns` -/
+theorem renWith_step (T : Ns → Tbl String) (ns : Ns) (new : Tbl String) (n : Node)
+    (c1 : ∀ t v, (T ns).get t = some v → new.get v = none)
+    (c2 : ∀ k, (new.get k).isSome → (T ns).get k = none) :
+    renameNode ns new (renWith T n) = renWith (fun m => if m = ns then new ++ T ns else T m) n := by
+  simp only [renameNode, renWith, List.map_map]
+  congr 1
+  apply List.map_congr_left
+  intro r _
+  simp only [Function.comp]
+  unfold renameRef
+  cases hc : coveredNs n.tag r.site with
+  | none => simp [hc]
+  | some ns' =>
+    simp only [hc]
+    by_cases e : ns' = ns
+    · subst e
+      simp only [if_true]
+      congr 1
+      unfold Tbl.app
+      rw [Tbl.get_append]
+      cases hT : (T ns').get r.target with
+      | some v =>
+        have hn : new.get r.target = none := by
+          cases hnew : new.get r.target with
+          | none => rfl
+          | some w => have := c2 r.target (by simp [hnew]); rw [hT] at this; cases this
+        simp [hn, c1 r.target v hT]
+      | none =>
+        cases hnew : new.get r.target <;> simp [hnew]
+    · have e' : ¬ (some ns' = some ns) := fun h => e (Option.some.inj h)
+      simp [e', e]
+
+theorem renameNode_nil' (ns : Ns) (n : Node) : renameNode ns [] n = n := by
+  cases n with
+  | mk t nm h refs =>
+    simp only [renameNode, Node.mk.injEq, true_and]
+    rw [List.map_congr_left (g := id) (fun r _ => by unfold renameRef; split <;> rfl), List.map_id]
+
+theorem map_renameNode_nil (ns : Ns) (m : Module) : m.map (renameNode ns []) = m := by
+  rw [List.map_congr_left (g := id) (fun x _ => renameNode_nil' ns x), List.map_id]
+
+theorem nsNodes_map (ns : Ns) (f : Node → Node) (hf : ∀ n, (f n).tag = n.tag) (m : Module) :
+    nsNodes ns (m.map f) = (nsNodes ns m).map f := by
+  unfold nsNodes
+  induction ns.tags with
+  | nil => rfl
+  | cons t ts ih =>
+    simp only [List.flatMap_cons, List.map_append, ih]
+    congr 1
+    rw [List.filter_map]
+    congr 1
+    apply List.filter_congr
+    intro x _
+    simp [hf]
+
+theorem nsNodes_names_map (ns : Ns) (f : Node → Node) (hf : ∀ n, (f n).tag = n.tag ∧ (f n).name = n.name) (m : Module) :
+    (nsNodes ns (m.map f)).map (·.name) = (nsNodes ns m).map (·.name) := by
+  rw [nsNodes_map ns f (fun n => (hf n).1), List.map_map]
+  apply List.map_congr_left
+  intro x _
+  exact (hf x).2
+
+theorem uniqueLoop_congr {t₁ t₂ : String → Bool} (h : ∀ s, t₁ s = t₂ s) (c : String) :
+    ∀ (fuel idx : Nat), uniqueLoop t₁ c fuel idx = uniqueLoop t₂ c fuel idx
+  | 0, _ => rfl
+  | fuel + 1, idx => by
+    unfold uniqueLoop
+    rw [h, uniqueLoop_congr h c fuel (idx + 1)]
+
+theorem lookup_isSome_congr {l l' : List Node} (h : l.map (·.name) = l'.map (·.name)) (s : String) :
+    (lookup l s).isSome = (lookup l' s).isSome := by
+  cases h1 : (lookup l s).isSome with
+  | true => exact (mem_lookup_isSome (h ▸ lookup_isSome_mem h1)).symm
+  | false =>
+    cases h2 : (lookup l' s).isSome with
+    | false => rfl
+    | true => rw [mem_lookup_isSome (h.symm ▸ lookup_isSome_mem h2)] at h1; cases h1
+
+/-- `make_unique_name` only looks at the names of the merge module's items -/
+theorem makeUniqueName_congr (c : String) (orig : List Node) {merge merge' : List Node}
+    (h : merge.map (·.name) = merge'.map (·.name)) : makeUniqueName c orig merge = makeUniqueName c orig merge' := by
+  unfold makeUniqueName
+  have hl : merge.length = merge'.length := by simpa using congrArg List.length h
+  rw [hl]
+  apply uniqueLoop_congr
+  intro s
+  unfold nameTaken
+  rw [lookup_isSome_congr h]
+
+theorem calc_ren_key_mem (orig merge : List Node) (S : List String) : ∀ (l : List Node) (p : Plan),
+    (∀ n f, p.ren.get n = some f → n ∈ S) → (∀ b ∈ l, b.name ∈ S) →
+    ∀ n f, (l.foldl (calcStep orig merge) p).ren.get n = some f → n ∈ S
+  | [], _, h, _ => h
+  | b :: l, p, h, hl => by
+    simp only [List.foldl_cons]
+    apply calc_ren_key_mem orig merge S l _ _ (fun b hb => hl b (List.mem_cons_of_mem _ hb))
+    intro n f hf
+    rw [calcStep_ren] at hf
+    split at hf
+    · rw [Tbl.get_insert] at hf
+      split at hf
+      · rename_i e; exact e ▸ hl b (List.mem_cons_self ..)
+      · exact h n f hf
+    · exact h n f hf
+
+theorem calcActions_ren_key_mem (orig merge : List Node) (n f : String) (h : (calcActions orig merge).ren.get n = some f) :
+    n ∈ merge.map (·.name) :=
+  calc_ren_key_mem orig merge _ merge ⟨[], []⟩ (fun _ _ h => by cases h) (fun b hb => List.mem_map.mpr ⟨b, hb, rfl⟩) n f h
+
+/-- the entries of a rename table of namespace `ns`: the key is the name of an item of B's namespace that has a namesake
+    in A, the value is the fresh name made for it -/
+def TblOK (a b0 : Module) (ns : Ns) (T : Tbl String) : Prop :=
+  ∀ k v, T.get k = some v → k ∈ (nsNodes ns b0).map (·.name) ∧ (lookup (nsNodes ns a) k).isSome = true ∧
+    v = makeUniqueName k (nsNodes ns a) (nsNodes ns b0)
+
+theorem TblOK.nil (a b0 : Module) (ns : Ns) : TblOK a b0 ns [] := fun _ _ h => by cases h
+
+theorem TblOK.value_not_key {a b0 : Module} {ns : Ns} {T T' : Tbl String} (h : TblOK a b0 ns T) (h' : TblOK a b0 ns T')
+    {t v : String} (hv : T.get t = some v) : T'.get v = none := by
+  cases hg : T'.get v with
+  | none => rfl
+  | some w =>
+    have h1 := (h' v _ hg).1
+    have h2 := (h t v hv).2.2
+    exact absurd (h2 ▸ h1) (makeUniqueName_not_mem t _ _).2
+
+theorem TblOK.append {a b0 : Module} {ns : Ns} {T T' : Tbl String} (h : TblOK a b0 ns T) (h' : TblOK a b0 ns T') :
+    TblOK a b0 ns (T ++ T') := by
+  intro k v hg
+  rw [Tbl.get_append] at hg
+  cases h1 : T.get k with
+  | some w => rw [h1] at hg; exact (Option.some.inj hg) ▸ h k w h1
+  | none => rw [h1] at hg; exact h' k v hg
+
+/-- the new renames of a round are well-formed entries -/
+theorem tblOK_retain (a b0 b : Module) (ns : Ns) (T : Tbl String)
+    (hn : (nsNodes ns b).map (·.name) = (nsNodes ns b0).map (·.name)) :
+    TblOK a b0 ns (retainNew T (calcActions (nsNodes ns a) (nsNodes ns b)).ren) := by
+  intro k v hg
+  rw [retainNew_get] at hg
+  split at hg
+  · refine ⟨hn ▸ calcActions_ren_key_mem _ _ k v hg, ((calcActions_general _ _).1 k v hg).2, ?_⟩
+    rw [((calcActions_general _ _).1 k v hg).1]
+    exact makeUniqueName_congr k _ hn
+  · cases hg
+
+/-- the loop invariant that does not mention the rest of the merge -/
+structure LI (a b0 : Module) (nss : List Ns) (b : Module) (ts : Ns → Tbl String) : Prop where
+  tok : ∀ ns, TblOK a b0 ns (ts ns)
+  names : ∀ ns, (nsNodes ns b).map (·.name) = (nsNodes ns b0).map (·.name)
+  nil : ∀ ns, ns ∉ nss → ts ns = []
+
+/-- the invariant inside a round; `done` = the namespaces already processed in this round -/
+structure RI (a b0 : Module) (nss : List Ns) (ts : Ns → Tbl String) (done : List Ns) (r : Round) : Prop where
+  li : LI a b0 nss r.b (fun m => r.new m ++ ts m)
+  fresh : ∀ m k, ((r.new m).get k).isSome = true → (ts m).get k = none
+  undone : ∀ m, m ∉ done → r.new m = []
+  snap : ∀ m ∈ done, ∃ bm, r.act m = (calcActions (nsNodes m a) (nsNodes m bm)).act ∧
+    (∀ k v, (calcActions (nsNodes m a) (nsNodes m bm)).ren.get k = some v → ((r.new m ++ ts m).get k).isSome = true) ∧
+    (bm = r.b ∨ ∃ m' ∈ done, r.new m' ≠ [])
+
+theorem roundStep_b (a : Module) (ts : Ns → Tbl String) (r : Round) (ns : Ns) :
+    (roundStep a ts r ns).b = r.b.map (renameNode ns (retainNew (ts ns) (calcActions (nsNodes ns a) (nsNodes ns r.b)).ren)) := rfl
+theorem roundStep_new (a : Module) (ts : Ns → Tbl String) (r : Round) (ns m : Ns) :
+    (roundStep a ts r ns).new m =
+      if m = ns then retainNew (ts ns) (calcActions (nsNodes ns a) (nsNodes ns r.b)).ren else r.new m := rfl
+theorem roundStep_act (a : Module) (ts : Ns → Tbl String) (r : Round) (ns m : Ns) :
+    (roundStep a ts r ns).act m = if m = ns then (calcActions (nsNodes ns a) (nsNodes ns r.b)).act else r.act m := rfl
+
+theorem ri_step {a b0 : Module} {nss : List Ns} {ts : Ns → Tbl String} {done : List Ns} {r : Round}
+    (h : RI a b0 nss ts done r) (hts : ∀ ns, TblOK a b0 ns (ts ns)) {ns : Ns} (hns : ns ∈ nss) (hnd : ns ∉ done) :
+    RI a b0 nss ts (done ++ [ns]) (roundStep a ts r ns) := by
+  have hnew0 : r.new ns = [] := h.undone ns hnd
+  have hnames := h.li.names
+  have hok : TblOK a b0 ns (retainNew (ts ns) (calcActions (nsNodes ns a) (nsNodes ns r.b)).ren) :=
+    tblOK_retain a b0 r.b ns (ts ns) (hnames ns)
+  refine ⟨⟨?_, ?_, ?_⟩, ?_, ?_, ?_⟩
+  · intro m
+    rw [roundStep_new]
+    by_cases e : m = ns
+    · subst e; rw [if_pos rfl]; exact hok.append (hts m)
+    · rw [if_neg e]; exact h.li.tok m
+  · intro m
+    rw [roundStep_b, nsNodes_names_map m (renameNode ns _) (fun n => ⟨rfl, rfl⟩)]
+    exact hnames m
+  · intro m hm
+    rw [roundStep_new]
+    have e : m ≠ ns := fun e => hm (e ▸ hns)
+    rw [if_neg e]
+    exact h.li.nil m hm
+  · intro m k hk
+    rw [roundStep_new] at hk
+    by_cases e : m = ns
+    · subst e
+      rw [if_pos rfl, retainNew_get] at hk
+      split at hk
+      · rename_i hnone; simpa using hnone
+      · cases hk
+    · rw [if_neg e] at hk; exact h.fresh m k hk
+  · intro m hm
+    rw [roundStep_new]
+    have e : m ≠ ns := fun e => hm (List.mem_append_right _ (List.mem_singleton.mpr e))
+    rw [if_neg e]
+    exact h.undone m (fun hd => hm (List.mem_append_left _ hd))
+  · intro m hm
+    by_cases e : m = ns
+    · subst e
+      refine ⟨r.b, ?_, ?_, ?_⟩
+      · rw [roundStep_act, if_pos rfl]
+      · intro k v hkv
+        rw [roundStep_new, if_pos rfl, Tbl.get_append, retainNew_get]
+        cases hT : (ts m).get k with
+        | none => simp [hkv]
+        | some w => simp
+      · by_cases hnil : retainNew (ts m) (calcActions (nsNodes m a) (nsNodes m r.b)).ren = []
+        · left; rw [roundStep_b, hnil, map_renameNode_nil]
+        · right
+          exact ⟨m, List.mem_append_right _ (List.mem_singleton.mpr rfl), by rw [roundStep_new, if_pos rfl]; exact hnil⟩
+    · have hm' : m ∈ done := by
+        rcases List.mem_append.mp hm with h1 | h1
+        · exact h1
+        · exact absurd (List.mem_singleton.mp h1) e
+      obtain ⟨bm, h1, h2, h3⟩ := h.snap m hm'
+      refine ⟨bm, ?_, ?_, ?_⟩
+      · rw [roundStep_act, if_neg e]; exact h1
+      · rw [roundStep_new, if_neg e]; exact h2
+      · by_cases hnil : retainNew (ts ns) (calcActions (nsNodes ns a) (nsNodes ns r.b)).ren = []
+        · rcases h3 with h3 | ⟨m', hm'd, hm'n⟩
+          · left; rw [roundStep_b, hnil, map_renameNode_nil]; exact h3
+          · right
+            refine ⟨m', List.mem_append_left _ hm'd, ?_⟩
+            rw [roundStep_new]
+            have : m' ≠ ns := fun e' => hnd (e' ▸ hm'd)
+            rw [if_neg this]; exact hm'n
+        · right
+          exact ⟨ns, List.mem_append_right _ (List.mem_singleton.mpr rfl), by rw [roundStep_new, if_pos rfl]; exact hnil⟩
+
+theorem ri_foldl {a b0 : Module} {nss : List Ns} {ts : Ns → Tbl String} (hts : ∀ ns, TblOK a b0 ns (ts ns)) :
+    ∀ (l done : List Ns) (r : Round), RI a b0 nss ts done r → (∀ ns ∈ l, ns ∈ nss ∧ ns ∉ done) → l.Nodup →
+      RI a b0 nss ts (done ++ l) (l.foldl (roundStep a ts) r)
+  | [], done, r, h, _, _ => by simpa using h
+  | ns :: l, done, r, h, hl, hn => by
+    have hn' := List.nodup_cons.mp hn
+    have h1 := ri_step h hts (hl ns (List.mem_cons_self ..)).1 (hl ns (List.mem_cons_self ..)).2
+    have := ri_foldl hts l (done ++ [ns]) _ h1 (fun m hm => ⟨(hl m (List.mem_cons_of_mem _ hm)).1, fun hd => by
+      rcases List.mem_append.mp hd with h2 | h2
+      · exact (hl m (List.mem_cons_of_mem _ hm)).2 h2
+      · exact hn'.1 (List.mem_singleton.mp h2 ▸ hm)⟩) hn'.2
+    simpa [List.append_assoc] using this
+
+theorem ri_init {a b0 : Module} {nss : List Ns} {b : Module} {ts : Ns → Tbl String} (h : LI a b0 nss b ts) :
+    RI a b0 nss ts [] ⟨b, fun _ => [], fun _ => []⟩ where
+  li := ⟨h.tok, h.names, h.nil⟩
+  fresh _ _ hk := by cases hk
+  undone _ _ := rfl
+  snap _ hm := by cases hm
+
+theorem ri_round {a b0 : Module} {nss : List Ns} {b : Module} {ts : Ns → Tbl String} (h : LI a b0 nss b ts) (hn : nss.Nodup) :
+    RI a b0 nss ts nss (loopRound a ts nss b) := by
+  have := ri_foldl h.tok nss [] _ (ri_init h) (fun ns hns => ⟨hns, fun h => by cases h⟩) hn
+  simpa [loopRound] using this
+
+/-- B's current nodes are the nodes `Bf` with all renames so far applied: `base` = the tables of the other passes -/
+def RB (Bf : Module) (base : Ns → Tbl String) (ts : Ns → Tbl String) (r : Round) : Prop :=
+  r.b = Bf.map (renWith fun m => (r.new m ++ ts m) ++ base m)
+
+theorem rb_step {a b0 : Module} {nss : List Ns} {ts : Ns → Tbl String} {done : List Ns} {r : Round}
+    (h : RI a b0 nss ts done r) (hts : ∀ ns, TblOK a b0 ns (ts ns)) {ns : Ns} (hnd : ns ∉ done)
+    {Bf : Module} {base : Ns → Tbl String} (hbase : base ns = []) (hb : RB Bf base ts r) :
+    RB Bf base ts (roundStep a ts r ns) := by
+  have hnew0 : r.new ns = [] := h.undone ns hnd
+  have hok : TblOK a b0 ns (retainNew (ts ns) (calcActions (nsNodes ns a) (nsNodes ns r.b)).ren) :=
+    tblOK_retain a b0 r.b ns (ts ns) (h.li.names ns)
+  unfold RB at hb ⊢
+  have hnewdef : ∀ m, (roundStep a ts r ns).new m =
+      if m = ns then retainNew (ts ns) (calcActions (nsNodes ns a) (nsNodes ns r.b)).ren else r.new m := fun m => rfl
+  have hfresh : ∀ k, ((retainNew (ts ns) (calcActions (nsNodes ns a) (nsNodes ns r.b)).ren).get k).isSome = true →
+      (ts ns).get k = none := by
+    intro k hk
+    rw [retainNew_get] at hk
+    split at hk
+    · rename_i hnone; simpa using hnone
+    · cases hk
+  rw [roundStep_b]
+  generalize retainNew (ts ns) (calcActions (nsNodes ns a) (nsNodes ns r.b)).ren = new at hok hnewdef hfresh ⊢
+  rw [hb, List.map_map]
+  apply List.map_congr_left
+  intro x _
+  simp only [Function.comp]
+  have hT : r.new ns ++ ts ns ++ base ns = ts ns := by simp [hnew0, hbase]
+  rw [renWith_step _ ns _ x]
+  · congr 1
+    funext m
+    rw [hnewdef]
+    by_cases e : m = ns
+    · subst e; simp [hnew0, hbase]
+    · simp [e]
+  · intro t v hv
+    simp only [hT] at hv
+    exact (hts ns).value_not_key hok hv
+  · intro k hk
+    simp only [hT]
+    exact hfresh k hk
+
+theorem rb_foldl {a b0 : Module} {nss : List Ns} {ts : Ns → Tbl String} (hts : ∀ ns, TblOK a b0 ns (ts ns))
+    {Bf : Module} {base : Ns → Tbl String} (hbase : ∀ ns ∈ nss, base ns = []) :
+    ∀ (l done : List Ns) (r : Round), RI a b0 nss ts done r → (∀ ns ∈ l, ns ∈ nss ∧ ns ∉ done) → l.Nodup →
+      RB Bf base ts r → RB Bf base ts (l.foldl (roundStep a ts) r)
+  | [], _, _, _, _, _, hb => hb
+  | ns :: l, done, r, h, hl, hn, hb => by
+    have hn' := List.nodup_cons.mp hn
+    have h0 := hl ns (List.mem_cons_self ..)
+    have h1 := ri_step h hts h0.1 h0.2
+    exact rb_foldl hts hbase l (done ++ [ns]) _ h1 (fun m hm => ⟨(hl m (List.mem_cons_of_mem _ hm)).1, fun hd => by
+      rcases List.mem_append.mp hd with h2 | h2
+      · exact (hl m (List.mem_cons_of_mem _ hm)).2 h2
+      · exact hn'.1 (List.mem_singleton.mp h2 ▸ hm)⟩) hn'.2 (rb_step h hts h0.2 (hbase ns h0.1) hb)
+
+theorem rb_round {a b0 : Module} {nss : List Ns} {b : Module} {ts : Ns → Tbl String} (h : LI a b0 nss b ts) (hn : nss.Nodup)
+    {Bf : Module} {base : Ns → Tbl String} (hbase : ∀ ns ∈ nss, base ns = [])
+    (hb : b = Bf.map (renWith fun m => ts m ++ base m)) :
+    (loopRound a ts nss b).b = Bf.map (renWith fun m => ((loopRound a ts nss b).new m ++ ts m) ++ base m) :=
+  rb_foldl h.tok hbase nss [] _ (ri_init h) (fun ns hns => ⟨hns, fun h => by cases h⟩) hn hb
+
+/-! the measure: the items of B (of the namespaces of the loop) that are not yet renamed -/
+
+def cnt (b0 : Module) (ns : Ns) (T : Tbl String) : Nat :=
+  ((nsNodes ns b0).filter fun m => (T.get m.name).isNone).length
+
+def loopMeasure (b0 : Module) (nss : List Ns) (ts : Ns → Tbl String) : Nat := (nss.map fun ns => cnt b0 ns (ts ns)).sum
+
+theorem length_filter_le_of_imp {α} (p q : α → Bool) : ∀ (l : List α), (∀ x ∈ l, p x = true → q x = true) →
+    (l.filter p).length ≤ (l.filter q).length
+  | [], _ => Nat.le_refl _
+  | x :: l, h => by
+    have ih := length_filter_le_of_imp p q l (fun y hy => h y (List.mem_cons_of_mem _ hy))
+    by_cases hp : p x = true
+    · rw [List.filter_cons_of_pos hp, List.filter_cons_of_pos (h x (List.mem_cons_self ..) hp)]
+      simp only [List.length_cons]; omega
+    · rw [List.filter_cons_of_neg hp]
+      by_cases hq : q x = true
+      · rw [List.filter_cons_of_pos hq]; simp only [List.length_cons]; omega
+      · rw [List.filter_cons_of_neg hq]; exact ih
+
+theorem length_filter_lt_of_imp {α} (p q : α → Bool) : ∀ (l : List α), (∀ x ∈ l, p x = true → q x = true) →
+    (∃ x ∈ l, q x = true ∧ p x = false) → (l.filter p).length < (l.filter q).length
+  | [], _, ⟨_, hx, _⟩ => by cases hx
+  | x :: l, h, ⟨y, hy, hqy, hpy⟩ => by
+    have hle := length_filter_le_of_imp p q l (fun z hz => h z (List.mem_cons_of_mem _ hz))
+    rcases List.mem_cons.mp hy with rfl | hy'
+    · rw [List.filter_cons_of_neg (by simp [hpy]), List.filter_cons_of_pos hqy]
+      simp only [List.length_cons]; omega
+    · have ih := length_filter_lt_of_imp p q l (fun z hz => h z (List.mem_cons_of_mem _ hz)) ⟨y, hy', hqy, hpy⟩
+      by_cases hp : p x = true
+      · rw [List.filter_cons_of_pos hp, List.filter_cons_of_pos (h x (List.mem_cons_self ..) hp)]
+        simp only [List.length_cons]; omega
+      · rw [List.filter_cons_of_neg hp]
+        by_cases hq : q x = true
+        · rw [List.filter_cons_of_pos hq]; simp only [List.length_cons]; omega
+        · rw [List.filter_cons_of_neg hq]; exact ih
+
+theorem sum_map_lt {α} (f g : α → Nat) : ∀ (l : List α), (∀ x ∈ l, f x ≤ g x) → (∃ x ∈ l, f x < g x) →
+    (l.map f).sum < (l.map g).sum
+  | [], _, ⟨_, hx, _⟩ => by cases hx
+  | x :: l, h, ⟨y, hy, hlt⟩ => by
+    have hle : (l.map f).sum ≤ (l.map g).sum := by
+      clear hy hlt
+      induction l with
+      | nil => exact Nat.le_refl _
+      | cons z l ih =>
+        simp only [List.map_cons, List.sum_cons]
+        have := h z (List.mem_cons_of_mem _ (List.mem_cons_self ..))
+        have := ih (fun w hw => h w (by
+          rcases List.mem_cons.mp hw with rfl | hw
+          · exact List.mem_cons_self ..
+          · exact List.mem_cons_of_mem _ (List.mem_cons_of_mem _ hw)))
+        omega
+    simp only [List.map_cons, List.sum_cons]
+    rcases List.mem_cons.mp hy with rfl | hy'
+    · omega
+    · have := sum_map_lt f g l (fun z hz => h z (List.mem_cons_of_mem _ hz)) ⟨y, hy', hlt⟩
+      have := h x (List.mem_cons_self ..)
+      omega
+
+/-- a round that is not the last one renames at least one more item -/
+theorem measure_decreases {a b0 : Module} {nss : List Ns} {ts : Ns → Tbl String} {r : Round} (h : RI a b0 nss ts nss r)
+    (hnot : ¬ ∀ ns ∈ nss, r.new ns = []) :
+    loopMeasure b0 nss (fun ns => r.new ns ++ ts ns) < loopMeasure b0 nss ts := by
+  unfold loopMeasure
+  apply sum_map_lt
+  · intro ns _
+    unfold cnt
+    apply length_filter_le_of_imp
+    intro m _ hm
+    rw [Tbl.get_append] at hm
+    cases h1 : (r.new ns).get m.name with
+    | some v => rw [h1] at hm; cases hm
+    | none => rw [h1] at hm; exact hm
+  · have : ∃ ns ∈ nss, r.new ns ≠ [] := by
+      apply Classical.byContradiction
+      intro hc
+      apply hnot
+      intro ns hns
+      apply Classical.byContradiction
+      intro hne
+      exact hc ⟨ns, hns, hne⟩
+    obtain ⟨ns, hns, hne⟩ := this
+    refine ⟨ns, hns, ?_⟩
+    unfold cnt
+    cases hnew : r.new ns with
+    | nil => exact absurd hnew hne
+    | cons kv t =>
+      obtain ⟨k, v⟩ := kv
+      have hget : (r.new ns).get k = some v := by rw [hnew, Tbl.get_cons, if_pos rfl]
+      have hk := (h.li.tok ns k v (by rw [Tbl.get_append, hget])).1
+      obtain ⟨m, hm, hmk⟩ := List.mem_map.mp hk
+      show (List.filter (fun m => ((r.new ns ++ ts ns).get m.name).isNone) (nsNodes ns b0)).length < _
+      apply length_filter_lt_of_imp
+      · intro m' _ hm'
+        rw [Tbl.get_append] at hm'
+        cases h1 : (r.new ns).get m'.name with
+        | some v => rw [h1] at hm'; cases hm'
+        | none => rw [h1] at hm'; exact hm'
+      · refine ⟨m, hm, ?_, ?_⟩
+        · have := h.fresh ns k (by rw [hget]; rfl)
+          simp [hmk, this]
+        · simp only [hmk]
+          rw [Tbl.get_append, hget]; rfl
+
+theorem cnt_le (b0 : Module) (ns : Ns) (T : Tbl String) : cnt b0 ns T ≤ (nsNodes ns b0).length :=
+  List.length_filter_le _ _
+
+theorem loopMeasure_le_fuel (b0 : Module) (nss : List Ns) (ts : Ns → Tbl String) :
+    loopMeasure b0 nss ts + 1 ≤ loopFuel nss b0 := by
+  unfold loopMeasure loopFuel
+  have : (nss.map fun ns => cnt b0 ns (ts ns)).sum ≤ (nss.map fun ns => (nsNodes ns b0).length).sum := by
+    induction nss with
+    | nil => exact Nat.le_refl _
+    | cons x l ih => simp only [List.map_cons, List.sum_cons]; have := cnt_le b0 x (ts x); omega
+  omega
+
+theorem fixLoop_succ (a : Module) (nss : List Ns) (fuel : Nat) (b : Module) (ts : Ns → Tbl String) :
+    fixLoop a nss (fuel + 1) b ts =
+      if nss.all (fun ns => ((loopRound a ts nss b).new ns).isEmpty) = true then
+        ((loopRound a ts nss b).b, fun ns => ⟨forceTrue ((loopRound a ts nss b).new ns ++ ts ns) ((loopRound a ts nss b).act ns),
+          (loopRound a ts nss b).new ns ++ ts ns⟩)
+      else fixLoop a nss fuel (loopRound a ts nss b).b (fun ns => (loopRound a ts nss b).new ns ++ ts ns) := rfl
+
+theorem all_isEmpty_iff (nss : List Ns) (f : Ns → Tbl String) :
+    nss.all (fun ns => (f ns).isEmpty) = true ↔ ∀ ns ∈ nss, f ns = [] := by
+  simp [List.all_eq_true, List.isEmpty_iff]
+
+/-- what the loop returns: the final merge module with the accumulated rename tables, which is a fixpoint: computing
+    the actions once more on it yields the returned actions (up to the forcing) and no rename that is not in the tables -/
+structure LoopRes (a b0 : Module) (nss : List Ns) (res : Module × (Ns → Plan)) : Prop where
+  li : LI a b0 nss res.1 (fun ns => (res.2 ns).ren)
+  act : ∀ ns ∈ nss, ∀ n, (res.2 ns).act.get n =
+    if ((res.2 ns).ren.get n).isSome then some true else (calcActions (nsNodes ns a) (nsNodes ns res.1)).act.get n
+  conf : ∀ ns ∈ nss, ∀ k v, (calcActions (nsNodes ns a) (nsNodes ns res.1)).ren.get k = some v →
+    ((res.2 ns).ren.get k).isSome = true
+
+theorem fixLoop_spec {a b0 : Module} {nss : List Ns} (hn : nss.Nodup) : ∀ (fuel : Nat) (b : Module) (ts : Ns → Tbl String),
+    LI a b0 nss b ts → loopMeasure b0 nss ts + 1 ≤ fuel →
+    LoopRes a b0 nss (fixLoop a nss fuel b ts) ∧
+    (∀ (Bf : Module) (base : Ns → Tbl String), (∀ ns ∈ nss, base ns = []) → b = Bf.map (renWith fun m => ts m ++ base m) →
+       (fixLoop a nss fuel b ts).1 = Bf.map (renWith fun m => ((fixLoop a nss fuel b ts).2 m).ren ++ base m))
+  | 0, _, _, _, hf => by omega
+  | fuel + 1, b, ts, h, hf => by
+    have hri := ri_round h hn
+    rw [fixLoop_succ]
+    by_cases hall : nss.all (fun ns => ((loopRound a ts nss b).new ns).isEmpty) = true
+    · rw [if_pos hall]
+      have hnil := (all_isEmpty_iff nss _).mp hall
+      have hsnap : ∀ m ∈ nss, (loopRound a ts nss b).act m = (calcActions (nsNodes m a) (nsNodes m (loopRound a ts nss b).b)).act ∧
+          ∀ k v, (calcActions (nsNodes m a) (nsNodes m (loopRound a ts nss b).b)).ren.get k = some v →
+            (((loopRound a ts nss b).new m ++ ts m).get k).isSome = true := by
+        intro m hm
+        obtain ⟨bm, h1, h2, h3⟩ := hri.snap m hm
+        rcases h3 with rfl | ⟨m', hm', hne⟩
+        · exact ⟨h1, h2⟩
+        · exact absurd (hnil m' hm') hne
+      refine ⟨⟨hri.li, ?_, ?_⟩, ?_⟩
+      · intro ns hns n
+        show (forceTrue _ _).get n = _
+        rw [forceTrue_get, (hsnap ns hns).1]
+      · intro ns hns k v hkv
+        exact (hsnap ns hns).2 k v hkv
+      · intro Bf base hbase hb
+        exact rb_round h hn hbase hb
+    · rw [if_neg hall]
+      have hnot : ¬ ∀ ns ∈ nss, (loopRound a ts nss b).new ns = [] := fun hc => hall ((all_isEmpty_iff nss _).mpr hc)
+      have hdec := measure_decreases hri hnot
+      have ih := fixLoop_spec hn fuel (loopRound a ts nss b).b (fun ns => (loopRound a ts nss b).new ns ++ ts ns) hri.li (by omega)
+      refine ⟨ih.1, ?_⟩
+      intro Bf base hbase hb
+      exact ih.2 Bf base hbase (rb_round h hn hbase hb)
+
+/-- more fuel does not change the result: the fuel is never what stops the loop -/
+theorem fixLoop_fuel_irrelevant {a b0 : Module} {nss : List Ns} (hn : nss.Nodup) : ∀ (f₁ f₂ : Nat) (b : Module) (ts : Ns → Tbl String),
+    LI a b0 nss b ts → loopMeasure b0 nss ts + 1 ≤ f₁ → loopMeasure b0 nss ts + 1 ≤ f₂ →
+    fixLoop a nss f₁ b ts = fixLoop a nss f₂ b ts
+  | 0, _, _, _, _, h1, _ => by omega
+  | _ + 1, 0, _, _, _, _, h2 => by omega
+  | f₁ + 1, f₂ + 1, b, ts, h, h1, h2 => by
+    have hri := ri_round h hn
+    rw [fixLoop_succ, fixLoop_succ]
+    by_cases hall : nss.all (fun ns => ((loopRound a ts nss b).new ns).isEmpty) = true
+    · rw [if_pos hall, if_pos hall]
+    · rw [if_neg hall, if_neg hall]
+      have hnot : ¬ ∀ ns ∈ nss, (loopRound a ts nss b).new ns = [] := fun hc => hall ((all_isEmpty_iff nss _).mpr hc)
+      have hdec := measure_decreases hri hnot
+      exact fixLoop_fuel_irrelevant hn f₁ f₂ _ _ hri.li (by omega) (by omega)
+
+theorem li_init (a b : Module) (nss : List Ns) : LI a b nss b (fun _ => []) :=
+  ⟨fun ns => TblOK.nil a b ns, fun _ => rfl, fun _ _ => rfl⟩
+
+/-- the number of rounds the loop makes when it has enough fuel (`none`: the fuel ran out) -/
+def loopRounds (a : Module) (nss : List Ns) : Nat → Module → (Ns → Tbl String) → Option Nat
+  | 0, _, _ => none
+  | fuel + 1, b, ts =>
+    if nss.all (fun ns => ((loopRound a ts nss b).new ns).isEmpty) = true then some 1
+    else (loopRounds a nss fuel (loopRound a ts nss b).b (fun ns => (loopRound a ts nss b).new ns ++ ts ns)).map (· + 1)
+
+theorem loopRounds_spec {a b0 : Module} {nss : List Ns} (hn : nss.Nodup) : ∀ (fuel : Nat) (b : Module) (ts : Ns → Tbl String),
+    LI a b0 nss b ts → loopMeasure b0 nss ts + 1 ≤ fuel →
+    ∃ k, loopRounds a nss fuel b ts = some k ∧ 1 ≤ k ∧ k ≤ loopMeasure b0 nss ts + 1
+  | 0, _, _, _, hf => by omega
+  | fuel + 1, b, ts, h, hf => by
+    have hri := ri_round h hn
+    unfold loopRounds
+    by_cases hall : nss.all (fun ns => ((loopRound a ts nss b).new ns).isEmpty) = true
+    · rw [if_pos hall]; exact ⟨1, rfl, Nat.le_refl _, by omega⟩
+    · rw [if_neg hall]
+      have hnot : ¬ ∀ ns ∈ nss, (loopRound a ts nss b).new ns = [] := fun hc => hall ((all_isEmpty_iff nss _).mpr hc)
+      have hdec := measure_decreases hri hnot
+      obtain ⟨k, hk, hk1, hk2⟩ := loopRounds_spec hn fuel _ _ hri.li (by omega)
+      exact ⟨k + 1, by rw [hk]; rfl, by omega, by omega⟩
+
+/-! ### what a plan step achieves (`PlanSpec`), for the single round `planNs` and for the loop `planLoop` -/
+
+def planEntries (nss : List Ns) (pl : Ns → Plan) : List (Ns × Plan) := (nss.map fun ns => (ns, pl ns)).reverse
+
+theorem planOf_entries_append (pl : Ns → Plan) (P : List (Ns × Plan)) : ∀ (E : List Ns) (m : Ns),
+    planOf (E.map (fun ns => (ns, pl ns)) ++ P) m = if m ∈ E then pl m else planOf P m
+  | [], m => by simp
+  | ns :: E, m => by
+    simp only [List.map_cons, List.cons_append]
+    by_cases e : ns = m
+    · subst e; rw [planOf_cons_self]; simp
+    · rw [planOf_cons_ne e, planOf_entries_append pl P E m]
+      have : (m ∈ ns :: E) ↔ m ∈ E := by simp [Ne.symm e]
+      by_cases h : m ∈ E <;> simp [h, Ne.symm e]
+
+theorem planOf_planEntries (nss : List Ns) (pl : Ns → Plan) (P : List (Ns × Plan)) (m : Ns) :
+    planOf (planEntries nss pl ++ P) m = if m ∈ nss then pl m else planOf P m := by
+  unfold planEntries
+  rw [← List.map_reverse, planOf_entries_append]
+  simp
+
+theorem planEntries_keys (nss : List Ns) (pl : Ns → Plan) : (planEntries nss pl).map (·.1) = nss.reverse := by
+  simp [planEntries, List.map_reverse, Function.comp_def]
+
+structure PlanSpec (nss : List Ns) (pl : Ns → Plan) (st st' : St) : Prop where
+  a_eq : st'.a = st.a
+  plans_eq : st'.plans = planEntries nss pl ++ st.plans
+  b_eq : ∀ (Bf : Module) (P : List (Ns × Plan)), st.b = Bf.map (renAll P) → (∀ ns ∈ nss, ns ∉ P.map (·.1)) →
+    st'.b = Bf.map (renAll (planEntries nss pl ++ P))
+  tbl : ∀ ns ∈ nss, TblOK st.a st.b ns (pl ns).ren
+  act : ∀ ns ∈ nss, ∀ n, (pl ns).act.get n =
+    if ((pl ns).ren.get n).isSome then some true else (calcActions (nsNodes ns st.a) (nsNodes ns st'.b)).act.get n
+  conf : ∀ ns ∈ nss, ∀ k v, (calcActions (nsNodes ns st.a) (nsNodes ns st'.b)).ren.get k = some v →
+    ((pl ns).ren.get k).isSome = true
+
+theorem planLoop_spec (nss : List Ns) (hn : nss.Nodup) (st : St) :
+    PlanSpec nss (fixLoop st.a nss (loopFuel nss st.b) st.b (fun _ => [])).2 st (planLoop nss st) := by
+  have hspec := fixLoop_spec (a := st.a) (b0 := st.b) hn (loopFuel nss st.b) st.b (fun _ => []) (li_init st.a st.b nss)
+    (loopMeasure_le_fuel st.b nss _)
+  obtain ⟨hres, hlb⟩ := hspec
+  refine ⟨rfl, rfl, ?_, fun ns _ => hres.li.tok ns, hres.act, hres.conf⟩
+  intro Bf P hb hP
+  have hbase : ∀ ns ∈ nss, (fun m => (planOf P m).ren) ns = [] := fun ns hns => by
+    show (planOf P ns).ren = []
+    rw [planOf_not_mem (hP ns hns)]
+  have := hlb Bf (fun m => (planOf P m).ren) hbase hb
+  show (fixLoop st.a nss (loopFuel nss st.b) st.b (fun _ => [])).1 = _
+  rw [this]
+  apply List.map_congr_left
+  intro x _
+  rw [renAll_eq_renWith]
+  congr 1
+  funext m
+  rw [planOf_planEntries]
+  by_cases hm : m ∈ nss
+  · rw [if_pos hm]
+    have := hbase m hm
+    simp only at this
+    rw [this, List.append_nil]
+  · rw [if_neg hm, hres.li.nil m hm]; rfl
+
+/-- the namespace does not rename references of its own elements (COMPU_TAB…, COMPU_METHOD, RECORD_LAYOUT, FRAME) -/
+def selfFree (ns : Ns) : Bool := covered.all fun c => !(ns.tags.contains c.1 && c.2.2 == ns)
+
+theorem selfFree_spec {ns : Ns} (h : selfFree ns = true) {n : Node} (hn : n.tag ∈ ns.tags) (site : String) :
+    coveredNs n.tag site ≠ some ns := by
+  intro hc
+  unfold coveredNs at hc
+  cases hf : covered.find? (fun c => c.1 == n.tag && c.2.1 == site) with
+  | none => rw [hf] at hc; cases hc
+  | some c =>
+    rw [hf] at hc
+    have hmem := List.mem_of_find?_eq_some hf
+    have hp := List.find?_some hf
+    simp only [Bool.and_eq_true, beq_iff_eq] at hp
+    have := List.all_eq_true.mp h c hmem
+    simp only [Option.map_some, Option.some.injEq] at hc
+    simp [hp.1, hn, hc] at this
+
+theorem renameNode_selfFree {ns : Ns} (h : selfFree ns = true) (T : Tbl String) {n : Node} (hn : n.tag ∈ ns.tags) :
+    renameNode ns T n = n := by
+  cases n with
+  | mk t nm hh refs =>
+    simp only [renameNode, Node.mk.injEq, true_and]
+    rw [List.map_congr_left (g := id) (fun r _ => by
+      unfold renameRef
+      rw [if_neg (selfFree_spec h hn r.site)]; rfl), List.map_id]
+
+theorem calc_ren_act (orig merge : List Node) (hnd : (merge.map (·.name)).Nodup) (n f : String)
+    (h : (calcActions orig merge).ren.get n = some f) : (calcActions orig merge).act.get n = some true := by
+  obtain ⟨b, hb, rfl⟩ := List.mem_map.mp (calcActions_ren_key_mem orig merge n f h)
+  have hent := calcActions_entry orig merge hnd b hb
+  rw [hent.2] at h
+  rw [hent.1]
+  split at h
+  · rename_i hc
+    unfold isConflict at hc
+    unfold needsAdd
+    split at hc <;> simp_all
+  · cases h
+
+theorem planNs_spec (ns : Ns) (hsf : selfFree ns = true) (st : St) (hnd : ((nsNodes ns st.b).map (·.name)).Nodup) :
+    PlanSpec [ns] (fun _ => calcActions (nsNodes ns st.a) (nsNodes ns st.b)) st (planNs ns st) := by
+  have hb' : nsNodes ns (planNs ns st).b = nsNodes ns st.b := by
+    show nsNodes ns (st.b.map _) = _
+    rw [nsNodes_map ns (renameNode ns _) (fun n => rfl)]
+    have : ∀ x ∈ nsNodes ns st.b, renameNode ns (calcActions (nsNodes ns st.a) (nsNodes ns st.b)).ren x = id x :=
+      fun x hx => renameNode_selfFree hsf _ (mem_nsNodes.mp hx).2
+    rw [List.map_congr_left this, List.map_id]
+  refine ⟨rfl, rfl, ?_, ?_, ?_, ?_⟩
+  · intro Bf P hb hP
+    show st.b.map _ = _
+    rw [hb, List.map_map]
+    apply List.map_congr_left
+    intro x _
+    exact renAll_cons (hP ns (List.mem_singleton.mpr rfl)) _ x
+  · intro m hm k v hkv
+    rw [List.mem_singleton.mp hm]
+    exact ⟨calcActions_ren_key_mem _ _ k v hkv, ((calcActions_general _ _).1 k v hkv).2, ((calcActions_general _ _).1 k v hkv).1⟩
+  · intro m hm n
+    rw [List.mem_singleton.mp hm, hb']
+    cases hr : (calcActions (nsNodes ns st.a) (nsNodes ns st.b)).ren.get n with
+    | none => rfl
+    | some f => simp [calc_ren_act _ _ hnd n f hr]
+  · intro m hm k v hkv
+    rw [List.mem_singleton.mp hm, hb'] at hkv
+    rw [hkv]; rfl
+
+/-! without renames the loop is one round -/
+
+theorem St.ext'' {s t : St} (ha : s.a = t.a) (hb : s.b = t.b) (hp : s.plans = t.plans) : s = t := by
+  cases s; cases t; simp_all
+
+theorem plan_eta {p : Plan} (h : p.ren = []) : (⟨p.act, []⟩ : Plan) = p := by
+  cases p; simp_all
+
+theorem retainNew_nil (T : Tbl String) : retainNew T [] = [] := rfl
+
+theorem planLoop_single_of_no_ren (ns : Ns) (st : St) (h : (calcActions (nsNodes ns st.a) (nsNodes ns st.b)).ren = []) :
+    planLoop [ns] st = planNs ns st := by
+  have hround : loopRound st.a (fun _ => []) [ns] st.b = roundStep st.a (fun _ => []) ⟨st.b, fun _ => [], fun _ => []⟩ ns := rfl
+  have hr : (loopRound st.a (fun _ => []) [ns] st.b).new ns = [] := by
+    rw [hround, roundStep_new, if_pos rfl, h]; rfl
+  have hfix : fixLoop st.a [ns] (loopFuel [ns] st.b) st.b (fun _ => []) =
+      ((loopRound st.a (fun _ => []) [ns] st.b).b, fun m => ⟨forceTrue ((loopRound st.a (fun _ => []) [ns] st.b).new m ++ [])
+          ((loopRound st.a (fun _ => []) [ns] st.b).act m), (loopRound st.a (fun _ => []) [ns] st.b).new m ++ []⟩) := by
+    show fixLoop st.a [ns] (_ + 1) st.b (fun _ => []) = _
+    rw [fixLoop_succ, if_pos ((all_isEmpty_iff _ _).mpr (fun m hm => by rw [List.mem_singleton.mp hm]; exact hr))]
+  apply St.ext''
+  · rfl
+  · show (fixLoop st.a [ns] (loopFuel [ns] st.b) st.b (fun _ => [])).1 = st.b.map _
+    rw [hfix, hround, roundStep_b, h]; rfl
+  · show [(ns, (fixLoop st.a [ns] (loopFuel [ns] st.b) st.b (fun _ => [])).2 ns)] ++ st.plans = (ns, _) :: st.plans
+    rw [hfix]
+    simp only [hr, List.append_nil, List.singleton_append, List.cons.injEq, Prod.mk.injEq, true_and, and_true]
+    rw [hround, roundStep_act, if_pos rfl]
+    exact plan_eta h
+
+theorem planLoop_pair_of_no_ren (n₁ n₂ : Ns) (hne : n₁ ≠ n₂) (st : St)
+    (h₁ : (calcActions (nsNodes n₁ st.a) (nsNodes n₁ st.b)).ren = [])
+    (h₂ : (calcActions (nsNodes n₂ (planNs n₁ st).a) (nsNodes n₂ (planNs n₁ st).b)).ren = []) :
+    planLoop [n₁, n₂] st = planNs n₂ (planNs n₁ st) := by
+  have hb1 : (planNs n₁ st).b = st.b.map (renameNode n₁ []) := by
+    show st.b.map _ = _
+    rw [h₁]
+  have hr1b : (roundStep st.a (fun _ => []) ⟨st.b, fun _ => [], fun _ => []⟩ n₁).b = (planNs n₁ st).b := by
+    rw [hb1]
+    show st.b.map (renameNode n₁ (retainNew [] (calcActions (nsNodes n₁ st.a) (nsNodes n₁ st.b)).ren)) = _
+    rw [h₁]; rfl
+  have hround : loopRound st.a (fun _ => []) [n₁, n₂] st.b =
+      roundStep st.a (fun _ => []) (roundStep st.a (fun _ => []) ⟨st.b, fun _ => [], fun _ => []⟩ n₁) n₂ := rfl
+  have hnew2 : (loopRound st.a (fun _ => []) [n₁, n₂] st.b).new n₂ = [] := by
+    rw [hround, roundStep_new, if_pos rfl, hr1b]
+    show retainNew [] (calcActions (nsNodes n₂ (planNs n₁ st).a) (nsNodes n₂ (planNs n₁ st).b)).ren = []
+    rw [h₂]; rfl
+  have hnew1 : (loopRound st.a (fun _ => []) [n₁, n₂] st.b).new n₁ = [] := by
+    rw [hround, roundStep_new, if_neg hne, roundStep_new, if_pos rfl, h₁]; rfl
+  have hfix : fixLoop st.a [n₁, n₂] (loopFuel [n₁, n₂] st.b) st.b (fun _ => []) =
+      ((loopRound st.a (fun _ => []) [n₁, n₂] st.b).b, fun m => ⟨forceTrue ((loopRound st.a (fun _ => []) [n₁, n₂] st.b).new m ++ [])
+          ((loopRound st.a (fun _ => []) [n₁, n₂] st.b).act m), (loopRound st.a (fun _ => []) [n₁, n₂] st.b).new m ++ []⟩) := by
+    show fixLoop st.a [n₁, n₂] (_ + 1) st.b (fun _ => []) = _
+    rw [fixLoop_succ, if_pos ((all_isEmpty_iff _ _).mpr (fun m hm => by
+      rcases List.mem_cons.mp hm with rfl | hm
+      · exact hnew1
+      · rw [List.mem_singleton.mp hm]; exact hnew2))]
+  apply St.ext''
+  · rfl
+  · show (fixLoop st.a [n₁, n₂] (loopFuel [n₁, n₂] st.b) st.b (fun _ => [])).1 = (planNs n₁ st).b.map _
+    rw [hfix, hround, roundStep_b, hr1b]
+    show (planNs n₁ st).b.map (renameNode n₂ (retainNew [] (calcActions (nsNodes n₂ (planNs n₁ st).a) (nsNodes n₂ (planNs n₁ st).b)).ren)) = _
+    rw [h₂]; rfl
+  · show [(n₂, (fixLoop st.a [n₁, n₂] (loopFuel [n₁, n₂] st.b) st.b (fun _ => [])).2 n₂),
+        (n₁, (fixLoop st.a [n₁, n₂] (loopFuel [n₁, n₂] st.b) st.b (fun _ => [])).2 n₁)] ++ st.plans = (n₂, _) :: (n₁, _) :: st.plans
+    rw [hfix]
+    simp only [hnew1, hnew2, List.append_nil, List.cons_append, List.nil_append, List.cons.injEq, Prod.mk.injEq, true_and, and_true]
+    constructor
+    · rw [hround, roundStep_act, if_pos rfl, hr1b]
+      exact plan_eta h₂
+    · rw [hround, roundStep_act, if_neg hne, roundStep_act, if_pos rfl]
+      exact plan_eta h₁
+
+
+/-! ## The invariants of `mergeSt` -/
+
+
+/-! ### the chains for `a_preserved` and `names_unique` -/
+
+theorem ext_planLoop (nss : List Ns) (st : St) : Ext st.a (planLoop nss st).a := Ext.refl _
+
+/-- every pass of `merge_modules` keeps the nodes that are already in A, in place -/
+theorem ext_mergeSt (a b : Module) : Ext a (mergeSt a b).a := by
+  have h : Ext a (St.a ⟨a, b, []⟩) := Ext.refl a
+  have h := h.step (takeOpt "A2ML") (ext_takeOpt _)
+  have h := h.step mergeModPar ext_mergeModPar
+  have h := h.step (takeAll "IF_DATA") (ext_takeAll _)
+  have h := (h.step (planLoop [.unit]) (ext_planLoop _)).step (applyNs .unit) (ext_applyNs _)
+  have h := (h.step (planNs .compuTab) (ext_planNs _)).step (applyNs .compuTab) (ext_applyNs _)
+  have h := (h.step (planNs .compuMethod) (ext_planNs _)).step (applyNs .compuMethod) (ext_applyNs _)
+  have h := (h.step (planNs .recordLayout) (ext_planNs _)).step (applyNs .recordLayout) (ext_applyNs _)
+  have h := h.step (takeOpt "MOD_COMMON") (ext_takeOpt _)
+  have h := h.step (planLoop [.object, .typedef]) (ext_planLoop _)
+  have h := (h.step (applyNs .object) (ext_applyNs _)).step (applyNs .typedef) (ext_applyNs _)
+  have h := h.step (mergeByName "FUNCTION" functionSites) (ext_mergeByName _ _ (.inl rfl))
+  have h := h.step (mergeByName "GROUP" groupSites) (ext_mergeByName _ _ (.inr rfl))
+  have h := (h.step (planNs .frame) (ext_planNs _)).step (applyNs .frame) (ext_applyNs _)
+  have h := (h.step (planLoop [.transformer]) (ext_planLoop _)).step (applyNs .transformer) (ext_applyNs _)
+  have h := h.step mergeUserRights ext_mergeUserRights
+  have h := h.step (takeOpt "VARIANT_CODING") (ext_takeOpt _)
+  exact h
+
+theorem map_renAll_nil (m : Module) : m = m.map (renAll []) := by
+  rw [List.map_congr_left (g := id) (fun x _ => renAll_nil x), List.map_id]
+
+theorem St.plan_planEntries {nss : List Ns} {pl : Ns → Plan} {st st' : St} (h : st'.plans = planEntries nss pl ++ st.plans)
+    (m : Ns) : st'.plan m = if m ∈ nss then pl m else st.plan m := by
+  rw [St.plan_eq, h, planOf_planEntries]; rfl
+
+/-- any plan step keeps the invariant of `names_unique` -/
+theorem nuinv_plan {nss : List Ns} {pl : Ns → Plan} {st st' : St} (hs : PlanSpec nss pl st st') (h : NUInv st) : NUInv st' := by
+  have hb : ∀ ns, names ns st'.b = names ns st.b := by
+    intro ns
+    rw [hs.b_eq st.b [] (map_renAll_nil st.b) (fun _ _ h => by cases h)]
+    exact names_map_same (f := renAll _) (fun n => ⟨rfl, rfl⟩) st.b
+  refine ⟨fun ns => hs.a_eq ▸ h.ua ns, fun ns => hb ns ▸ h.ub ns, ?_⟩
+  intro ns
+  rw [St.plan_planEntries hs.plans_eq, hb, hs.a_eq]
+  by_cases hm : ns ∈ nss
+  · rw [if_pos hm]
+    have hO : ∀ s, s ∈ names ns st.a ↔ s ∈ (nsNodes ns st.a).map (·.name) := fun s => (names_nsNodes_perm ns st.a).mem_iff.symm
+    have hM : ∀ s, s ∈ names ns st.b ↔ s ∈ (nsNodes ns st.b).map (·.name) := fun s => (names_nsNodes_perm ns st.b).mem_iff.symm
+    constructor
+    · intro n _ f hf
+      obtain ⟨_, _, rfl⟩ := hs.tbl ns hm n f hf
+      obtain ⟨k, _, _, h3, _, _⟩ := makeUniqueName_spec n (nsNodes ns st.a) (nsNodes ns st.b)
+      have hnm := makeUniqueName_not_mem n (nsNodes ns st.a) (nsNodes ns st.b)
+      exact ⟨fun e => hnm.1 ((hO _).mp e), fun e => hnm.2 ((hM _).mp e), k, h3⟩
+    · intro n _ ha hr
+      have hact := hs.act ns hm n
+      rw [hr] at hact
+      simp only [Option.isSome_none, Bool.false_eq_true, if_false] at hact
+      rw [ha] at hact
+      have hren : (calcActions (nsNodes ns st.a) (nsNodes ns st'.b)).ren.get n = none := by
+        cases hg : (calcActions (nsNodes ns st.a) (nsNodes ns st'.b)).ren.get n with
+        | none => rfl
+        | some v => have := hs.conf ns hm n v hg; rw [hr] at this; cases this
+      have := (calcActions_general _ _).2 n hact.symm hren
+      exact fun e => (lookup_eq_none.mp this) ((hO _).mp e)
+  · rw [if_neg hm]; exact h.pf ns
+
+theorem nuinv_planLoop (nss : List Ns) (hn : nss.Nodup) {st : St} (h : NUInv st) : NUInv (planLoop nss st) :=
+  nuinv_plan (planLoop_spec nss hn st) h
+
+theorem nuinv_mergeSt {a b : Module} (ha : UniqueNames a) (hb : UniqueNames b) : NUInv (mergeSt a b) := by
+  have h : NUInv ⟨a, b, []⟩ := ⟨ha, hb, fun ns => PlanFacts.empty _ _⟩
+  have h := nuinv_takeOpt (tag := "A2ML") (noNs_of_decide (by decide)) h
+  have h := nuinv_mergeModPar h
+  have h := nuinv_takeAll (tag := "IF_DATA") (noNs_of_decide (by decide)) h
+  have h := nuinv_applyNs .unit (nuinv_planLoop [.unit] (by decide) h)
+  have h := nuinv_applyNs .compuTab (nuinv_planNs .compuTab h)
+  have h := nuinv_applyNs .compuMethod (nuinv_planNs .compuMethod h)
+  have h := nuinv_applyNs .recordLayout (nuinv_planNs .recordLayout h)
+  have h := nuinv_takeOpt (tag := "MOD_COMMON") (noNs_of_decide (by decide)) h
+  have h := nuinv_planLoop [.object, .typedef] (by decide) h
+  have h := nuinv_applyNs .typedef (nuinv_applyNs .object h)
+  have h := nuinv_mergeByName .function functionSites rfl h
+  have h := nuinv_mergeByName .group groupSites rfl h
+  have h := nuinv_applyNs .frame (nuinv_planNs .frame h)
+  have h := nuinv_applyNs .transformer (nuinv_planLoop [.transformer] (by decide) h)
+  have h := nuinv_mergeUserRights h
+  have h := nuinv_takeOpt (tag := "VARIANT_CODING") (noNs_of_decide (by decide)) h
+  exact h
+
 /-! ### the invariant -/
 
-/-- how `calculate_item_actions` classified B's element `x` of namespace `ns`: it was compared, in the form `renAll ps x`
-    it had after the renames `ps` made before, with A's element of the same name -/
+/-- how the plan step classified B's element `x` of namespace `ns`: in its final round it compared `x`, as it is after ALL
+    renames (`renAll P x`), with A's element of the same name; elements in the rename table are added in any case -/
 def EntryOK (A0 : Module) (P : List (Ns × Plan)) (ns : Ns) (x : Node) : Prop :=
-  ∃ ps, ps <:+ P ∧
-    (planOf P ns).act.get x.name = some (needsAdd (nsNodes ns A0) (renAll ps x)) ∧
-    (isConflict (nsNodes ns A0) (renAll ps x) = true → ∃ k, 1 ≤ k ∧ (planOf P ns).ren.get x.name = some (mergeName x.name k)) ∧
-    (isConflict (nsNodes ns A0) (renAll ps x) = false → (planOf P ns).ren.get x.name = none)
+  (planOf P ns).act.get x.name =
+      some (needsAdd (nsNodes ns A0) (renAll P x) || ((planOf P ns).ren.get x.name).isSome) ∧
+  (isConflict (nsNodes ns A0) (renAll P x) = true → ((planOf P ns).ren.get x.name).isSome = true) ∧
+  (∀ f, (planOf P ns).ren.get x.name = some f →
+      (∃ k, 1 ≤ k ∧ f = mergeName x.name k) ∧ (lookup (nsNodes ns A0) x.name).isSome = true)
 
 /-- B's element `x` of namespace `ns` has a representative `y` in `a`: same kind and body, found under the name
-    `rep P ns x.name` (its own name or a fresh `x.MERGE<k>`); it is either A's identical element (identical to `x` as it
-    was when compared) or an added node that carries `x`'s references after all renames -/
+    `rep P ns x.name` (its own name or a fresh `x.MERGE<k>`), carrying `x`'s references after all renames; `y` is a node of
+    A (with `x`'s name) or an added node (whose name is not used in A's namespace) -/
 def RepOK (A0 : Module) (P : List (Ns × Plan)) (a : Module) (ns : Ns) (x : Node) : Prop :=
   ∃ y ∈ a, y.tag = x.tag ∧ y.hash = x.hash ∧ y.name = rep P ns x.name ∧
     (y.name = x.name ∨ ∃ k, 1 ≤ k ∧ y.name = mergeName x.name k) ∧
-    ((y ∈ A0 ∧ y.name = x.name ∧ ∃ ps, ps <:+ P ∧ y = renAll ps x) ∨
-     (y.name ∉ names ns A0 ∧ y.refs = (renAll P x).refs))
+    y.refs = (renAll P x).refs ∧
+    ((y ∈ A0 ∧ y.name = x.name) ∨ y.name ∉ names ns A0)
 
 /-- the own name of B's element is defined in the namespace -/
 def OwnOK (a : Module) (ns : Ns) (x : Node) : Prop := ∃ z ∈ a, z.tag ∈ ns.tags ∧ z.name = x.name
@@ -1340,14 +2205,17 @@ def ProvOK (A0 B0 : Module) (P : List (Ns × Plan)) (mv : List String) (y : Node
   ∀ r ∈ y.refs, (∃ a0 ∈ A0, a0.tag = y.tag ∧ r ∈ a0.refs) ∨
     (y.tag ∈ mv ∧ ∃ x ∈ B0, x.tag = y.tag ∧ r ∈ (renAll P x).refs)
 
-/-- `mv`: the kinds already moved out of B; `ks`: the namespaces planned so far (latest first) -/
-structure MInv (A0 B0 : Module) (mv : List String) (ks : List Ns) (st : St) : Prop where
+/-- `mv`: the kinds already moved out of B; `sv`: the kinds whose references are final (all namespaces that rename
+    references of these kinds have been planned); `ks`: the namespaces planned so far (latest first) -/
+structure MInv (A0 B0 : Module) (mv sv : List String) (ks : List Ns) (st : St) : Prop where
   nu : NUInv st
   keys : st.plans.map (·.1) = ks
   nd : ks.Nodup
   std : ∀ ns ∈ ks, ns.std
   bform : ∃ keep : Node → Bool, st.b = (B0.filter keep).map (renAll st.plans) ∧ ∀ x ∈ B0, x.tag ∉ mv → keep x = true
-  settled : ∀ t ∈ mv, ∀ site ns, coveredNs t site = some ns → ns ∈ ks
+  msub : ∀ t ∈ mv, t ∈ sv
+  ksv : ∀ ns ∈ ks, ∀ t ∈ ns.tags, t ∈ sv
+  settled : ∀ t ∈ sv, ∀ site ns, coveredNs t site = some ns → ns ∈ ks
   aframe : ∀ ns : Ns, (∀ t ∈ ns.tags, t ∉ mv) → nsNodes ns st.a = nsNodes ns A0
   ext : Ext A0 st.a
   prov : ∀ y ∈ st.a, ProvOK A0 B0 st.plans mv y
@@ -1357,91 +2225,26 @@ structure MInv (A0 B0 : Module) (mv : List String) (ks : List Ns) (st : St) : Pr
 
 theorem tags_ne_nil (ns : Ns) : ∃ t, t ∈ ns.tags := by cases ns <;> exact ⟨_, List.mem_cons_self ..⟩
 
-theorem mem_b_of_keep {A0 B0 : Module} {mv : List String} {ks : List Ns} {st : St} (h : MInv A0 B0 mv ks st) {x : Node}
+theorem mem_b_of_keep {A0 B0 : Module} {mv sv : List String} {ks : List Ns} {st : St} (h : MInv A0 B0 mv sv ks st) {x : Node}
     (hx : x ∈ B0) (ht : x.tag ∉ mv) : renAll st.plans x ∈ st.b := by
   obtain ⟨keep, hb, hk⟩ := h.bform
   rw [hb]
   exact List.mem_map.mpr ⟨x, List.mem_filter.mpr ⟨hx, hk x hx ht⟩, rfl⟩
 
-theorem of_mem_b {A0 B0 : Module} {mv : List String} {ks : List Ns} {st : St} (h : MInv A0 B0 mv ks st) {x' : Node}
+theorem of_mem_b {A0 B0 : Module} {mv sv : List String} {ks : List Ns} {st : St} (h : MInv A0 B0 mv sv ks st) {x' : Node}
     (hx : x' ∈ st.b) : ∃ x ∈ B0, x' = renAll st.plans x := by
   obtain ⟨keep, hb, _⟩ := h.bform
   rw [hb] at hx
   obtain ⟨x, hx, e⟩ := List.mem_map.mp hx
   exact ⟨x, (List.mem_filter.mp hx).1, e.symm⟩
 
-theorem renAll_stable_of_settled {A0 B0 : Module} {mv : List String} {ks : List Ns} {st : St} (h : MInv A0 B0 mv ks st)
-    {ns : Ns} (hns : ns ∉ ks) (p : Plan) {x : Node} (hx : x.tag ∈ mv) :
-    renAll ((ns, p) :: st.plans) x = renAll st.plans x :=
-  renAll_cons_stable _ _ _ _ (fun site hc => hns (h.settled _ hx site ns hc))
-
-theorem minv_planNs {A0 B0 : Module} {mv : List String} {ks : List Ns} {st : St} (ns : Ns) (h : MInv A0 B0 mv ks st)
-    (hns : ns ∉ ks) (hstd : ns.std) (hmv : ∀ t ∈ ns.tags, t ∉ mv) : MInv A0 B0 mv (ns :: ks) (planNs ns st) := by
-  have hkeys : ns ∉ st.plans.map (·.1) := h.keys ▸ hns
-  -- abbreviations
-  have hplans : (planNs ns st).plans = (ns, calcActions (nsNodes ns st.a) (nsNodes ns st.b)) :: st.plans := rfl
-  have ha : (planNs ns st).a = st.a := rfl
-  refine ⟨nuinv_planNs ns h.nu, by rw [hplans, List.map_cons, h.keys], List.nodup_cons.mpr ⟨hns, h.nd⟩, ?_, ?_, ?_, ?_, ?_, ?_, ?_, ?_, ?_⟩
-  · intro ns' hn
-    rcases List.mem_cons.mp hn with rfl | hn
-    · exact hstd
-    · exact h.std ns' hn
-  · obtain ⟨keep, hb, hk⟩ := h.bform
-    refine ⟨keep, ?_, hk⟩
-    show st.b.map (renameNode ns (calcActions (nsNodes ns st.a) (nsNodes ns st.b)).ren) = _
-    rw [hplans]
-    generalize calcActions (nsNodes ns st.a) (nsNodes ns st.b) = p
-    rw [hb, List.map_map]
-    apply List.map_congr_left
-    intro x _
-    exact renAll_cons hkeys p x
-  · intro t ht site ns' hc
-    exact List.mem_cons_of_mem _ (h.settled t ht site ns' hc)
-  · exact h.aframe
-  · exact h.ext
-  · intro y hy r hr
-    rcases h.prov y hy r hr with h1 | ⟨hmvy, x, hx, hxt, hxr⟩
-    · exact .inl h1
-    · refine .inr ⟨hmvy, x, hx, hxt, ?_⟩
-      rw [hplans, renAll_stable_of_settled h hns _ (hxt ▸ hmvy)]
-      exact hxr
-  · intro ns' hn x hx hxt
-    rcases List.mem_cons.mp hn with rfl | hn
-    · -- the namespace just planned
-      have hxb := mem_b_of_keep h hx (hmv _ hxt)
-      have hm : renAll st.plans x ∈ nsNodes ns' st.b := mem_nsNodes.mpr ⟨hxb, hxt⟩
-      have hnd : ((nsNodes ns' st.b).map (·.name)).Nodup := (names_nsNodes_perm ns' st.b).symm.nodup (h.nu.ub ns')
-      have hent := calcActions_entry (nsNodes ns' st.a) (nsNodes ns' st.b) hnd _ hm
-      rw [h.aframe ns' hmv] at hent
-      refine ⟨st.plans, hplans ▸ List.suffix_cons _ _, ?_, ?_, ?_⟩
-      · rw [hplans, planOf_cons_self, h.aframe ns' hmv]; exact hent.1
-      · intro hc
-        rw [hplans, planOf_cons_self, h.aframe ns' hmv]
-        have := hent.2
-        rw [if_pos hc] at this
-        obtain ⟨k, hk1, _, hk3, _, _⟩ := makeUniqueName_spec x.name (nsNodes ns' A0) (nsNodes ns' st.b)
-        exact ⟨k, hk1, by rw [← hk3]; exact this⟩
-      · intro hc
-        rw [hplans, planOf_cons_self, h.aframe ns' hmv]
-        have := hent.2
-        rw [if_neg (by simp [hc])] at this
-        exact this
-    · have hne : ns ≠ ns' := fun e => hns (e ▸ hn)
-      obtain ⟨ps, hps, h1, h2, h3⟩ := h.pend ns' hn x hx hxt
-      refine ⟨ps, hplans ▸ hps.trans (List.suffix_cons _ _), ?_, ?_, ?_⟩ <;> rw [hplans, planOf_cons_ne hne] <;> assumption
-  · intro ns' hn hall x hx hxt
-    rcases List.mem_cons.mp hn with rfl | hn
-    · exact absurd (hall _ hxt) (hmv _ hxt)
-    · have hne : ns ≠ ns' := fun e => hns (e ▸ hn)
-      obtain ⟨y, hy, h1, h2, h3, h4, h5⟩ := h.rep ns' hn hall x hx hxt
-      have hst : renAll ((ns, calcActions (nsNodes ns st.a) (nsNodes ns st.b)) :: st.plans) x = renAll st.plans x :=
-        renAll_stable_of_settled h hns _ (hall _ hxt)
-      refine ⟨y, hy, h1, h2, ?_, h4, ?_⟩
-      · rw [hplans]; unfold rep; rw [planOf_cons_ne hne]; exact h3
-      · rcases h5 with ⟨h5a, h5b, ps, hps, h5c⟩ | ⟨h5a, h5b⟩
-        · exact .inl ⟨h5a, h5b, ps, hplans ▸ hps.trans (List.suffix_cons _ _), h5c⟩
-        · exact .inr ⟨h5a, by rw [hplans, hst]; exact h5b⟩
-  · exact h.own
+/-- plans of namespaces that do not cover the kind of a node do not touch it -/
+theorem renAll_entries_stable (nss : List Ns) (pl : Ns → Plan) (P : List (Ns × Plan)) (x : Node)
+    (h : ∀ site ns, coveredNs x.tag site = some ns → ns ∉ nss) : renAll (planEntries nss pl ++ P) x = renAll P x := by
+  rw [renAll_eq_renWith, renAll_eq_renWith]
+  apply renWith_congr
+  intro site ns hc s
+  simp only [planOf_planEntries, if_neg (h site ns hc)]
 
 theorem lookup_some {l : List Node} {s : String} {a : Node} (h : lookup l s = some a) : a ∈ l ∧ a.name = s := by
   unfold lookup at h
@@ -1451,9 +2254,120 @@ theorem names_eq_of_nsNodes_eq {ns : Ns} {m m' : Module} (h : nsNodes ns m = nsN
     s ∈ names ns m ↔ s ∈ names ns m' := by
   rw [← (names_nsNodes_perm ns m).mem_iff, ← (names_nsNodes_perm ns m').mem_iff, h]
 
-theorem minv_applyNs {A0 B0 : Module} {mv : List String} {ks : List Ns} {st : St} (ns : Ns) (h : MInv A0 B0 mv ks st)
-    (hns : ns ∈ ks) (hmv : ∀ t ∈ ns.tags, t ∉ mv) (hcov : covOK ns.tags ks = true) :
-    MInv A0 B0 (mv ++ ns.tags) ks (applyNs ns st) := by
+/-- a plan step (one round or the loop) for the namespaces `nss` -/
+theorem minv_plan {A0 B0 : Module} {mv sv : List String} {ks : List Ns} {st st' : St} {nss : List Ns} {pl : Ns → Plan}
+    (hs : PlanSpec nss pl st st') (h : MInv A0 B0 mv sv ks st) (hnd : nss.Nodup)
+    (hns : ∀ ns ∈ nss, ns ∉ ks) (hstd : ∀ ns ∈ nss, ns.std) (hmv : ∀ ns ∈ nss, ∀ t ∈ ns.tags, t ∉ mv)
+    (hcov : covOK (nss.flatMap (·.tags)) (nss.reverse ++ ks) = true) :
+    MInv A0 B0 mv (sv ++ nss.flatMap (·.tags)) (nss.reverse ++ ks) st' := by
+  have hnu := nuinv_plan hs h.nu
+  have hP : ∀ ns ∈ nss, ns ∉ st.plans.map (·.1) := fun ns hm => h.keys ▸ hns ns hm
+  have hplanOf : ∀ m, planOf st'.plans m = if m ∈ nss then pl m else planOf st.plans m := fun m => by
+    rw [hs.plans_eq, planOf_planEntries]
+  -- nodes whose kind is settled are not touched by the new tables
+  have hstable : ∀ x : Node, x.tag ∈ sv → renAll st'.plans x = renAll st.plans x := by
+    intro x hx
+    rw [hs.plans_eq]
+    apply renAll_entries_stable
+    intro site ns hc hm
+    exact hns ns hm (h.settled _ hx site ns hc)
+  have hbform : ∃ keep : Node → Bool, st'.b = (B0.filter keep).map (renAll st'.plans) ∧ ∀ x ∈ B0, x.tag ∉ mv → keep x = true := by
+    obtain ⟨keep, hb, hk⟩ := h.bform
+    exact ⟨keep, by rw [hs.plans_eq]; exact hs.b_eq _ _ hb hP, hk⟩
+  refine ⟨hnu, ?_, ?_, ?_, hbform, ?_, ?_, ?_, ?_, ?_, ?_, ?_, ?_, ?_⟩
+  · rw [hs.plans_eq, List.map_append, planEntries_keys, h.keys]
+  · rw [List.nodup_append]
+    refine ⟨(List.reverse_perm nss).symm.nodup hnd, h.nd, ?_⟩
+    intro x hx y hy e
+    exact hns x (List.mem_reverse.mp hx) (e ▸ hy)
+  · intro ns hn
+    rcases List.mem_append.mp hn with hn | hn
+    · exact hstd ns (List.mem_reverse.mp hn)
+    · exact h.std ns hn
+  · exact fun t ht => List.mem_append_left _ (h.msub t ht)
+  · intro ns hn t ht
+    rcases List.mem_append.mp hn with hn | hn
+    · exact List.mem_append_right _ (List.mem_flatMap.mpr ⟨ns, List.mem_reverse.mp hn, ht⟩)
+    · exact List.mem_append_left _ (h.ksv ns hn t ht)
+  · intro t ht site ns hc
+    rcases List.mem_append.mp ht with ht | ht
+    · exact List.mem_append_right _ (h.settled t ht site ns hc)
+    · exact covOK_spec hcov ht hc
+  · intro ns hall; rw [hs.a_eq]; exact h.aframe ns hall
+  · rw [hs.a_eq]; exact h.ext
+  · intro y hy r hr
+    rw [hs.a_eq] at hy
+    rcases h.prov y hy r hr with h1 | ⟨hmvy, x, hx, hxt, hxr⟩
+    · exact .inl h1
+    · refine .inr ⟨hmvy, x, hx, hxt, ?_⟩
+      rw [hstable x (h.msub _ (hxt ▸ hmvy))]
+      exact hxr
+  · intro ns' hn x hx hxt
+    rcases List.mem_append.mp hn with hn | hn
+    · -- a namespace just planned
+      have hm : ns' ∈ nss := List.mem_reverse.mp hn
+      have htmv : x.tag ∉ mv := hmv ns' hm _ hxt
+      obtain ⟨keep, hb, hk⟩ := hbform
+      have hxb : renAll st'.plans x ∈ st'.b := by
+        rw [hb]; exact List.mem_map.mpr ⟨x, List.mem_filter.mpr ⟨hx, hk x hx htmv⟩, rfl⟩
+      have hxM : renAll st'.plans x ∈ nsNodes ns' st'.b := mem_nsNodes.mpr ⟨hxb, hxt⟩
+      have hndM : ((nsNodes ns' st'.b).map (·.name)).Nodup := (names_nsNodes_perm ns' st'.b).symm.nodup (hnu.ub ns')
+      have hO : nsNodes ns' st.a = nsNodes ns' A0 := h.aframe ns' (hmv ns' hm)
+      have hent := calcActions_entry (nsNodes ns' st.a) (nsNodes ns' st'.b) hndM _ hxM
+      have hact := hs.act ns' hm x.name
+      have hconf := hs.conf ns' hm x.name
+      have htbl := hs.tbl ns' hm x.name
+      rw [hO] at hent hact hconf htbl
+      unfold EntryOK
+      rw [hplanOf, if_pos hm]
+      refine ⟨?_, ?_, ?_⟩
+      · rw [hact]
+        have h1 : (calcActions (nsNodes ns' A0) (nsNodes ns' st'.b)).act.get x.name = some (needsAdd (nsNodes ns' A0) (renAll st'.plans x)) := hent.1
+        cases hr : ((pl ns').ren.get x.name).isSome with
+        | true => simp
+        | false => simp [h1]
+      · intro hc
+        have h2 := hent.2
+        rw [if_pos hc] at h2
+        exact hconf _ h2
+      · intro f hf
+        obtain ⟨_, h2, h3⟩ := htbl f hf
+        obtain ⟨k, hk1, _, hk3, _, _⟩ := makeUniqueName_spec x.name (nsNodes ns' A0) (nsNodes ns' st.b)
+        exact ⟨⟨k, hk1, h3.trans hk3⟩, h2⟩
+    · have hnot : ns' ∉ nss := fun hm => hns ns' hm hn
+      obtain ⟨h1, h2, h3⟩ := h.pend ns' hn x hx hxt
+      unfold EntryOK
+      rw [hplanOf, if_neg hnot, hstable x (h.ksv ns' hn _ hxt)]
+      exact ⟨h1, h2, h3⟩
+  · intro ns' hn hall x hx hxt
+    rcases List.mem_append.mp hn with hn | hn
+    · exact absurd (hall _ hxt) (hmv ns' (List.mem_reverse.mp hn) _ hxt)
+    · have hnot : ns' ∉ nss := fun hm => hns ns' hm hn
+      obtain ⟨y, hy, h1, h2, h3, h4, h5, h6⟩ := h.rep ns' hn hall x hx hxt
+      refine ⟨y, hs.a_eq ▸ hy, h1, h2, ?_, h4, ?_, h6⟩
+      · unfold rep; rw [hplanOf, if_neg hnot]; exact h3
+      · rw [hstable x (h.msub _ (hall _ hxt))]; exact h5
+  · intro ns hall x hx hxt
+    rw [hs.a_eq]; exact h.own ns hall x hx hxt
+
+theorem minv_planNs {A0 B0 : Module} {mv sv : List String} {ks : List Ns} {st : St} (ns : Ns) (h : MInv A0 B0 mv sv ks st)
+    (hsf : selfFree ns = true) (hns : ns ∉ ks) (hstd : ns.std) (hmv : ∀ t ∈ ns.tags, t ∉ mv)
+    (hcov : covOK ns.tags (ns :: ks) = true) : MInv A0 B0 mv (sv ++ ns.tags) (ns :: ks) (planNs ns st) := by
+  have hnd : ((nsNodes ns st.b).map (·.name)).Nodup := (names_nsNodes_perm ns st.b).symm.nodup (h.nu.ub ns)
+  have := minv_plan (planNs_spec ns hsf st hnd) h (by simp) (fun m hm => List.mem_singleton.mp hm ▸ hns)
+    (fun m hm => List.mem_singleton.mp hm ▸ hstd) (fun m hm => List.mem_singleton.mp hm ▸ hmv) (by simpa using hcov)
+  simpa using this
+
+theorem minv_planLoop {A0 B0 : Module} {mv sv : List String} {ks : List Ns} {st : St} (nss : List Ns)
+    (h : MInv A0 B0 mv sv ks st) (hnd : nss.Nodup)
+    (hns : ∀ ns ∈ nss, ns ∉ ks) (hstd : ∀ ns ∈ nss, ns.std) (hmv : ∀ ns ∈ nss, ∀ t ∈ ns.tags, t ∉ mv)
+    (hcov : covOK (nss.flatMap (·.tags)) (nss.reverse ++ ks) = true) :
+    MInv A0 B0 mv (sv ++ nss.flatMap (·.tags)) (nss.reverse ++ ks) (planLoop nss st) :=
+  minv_plan (planLoop_spec nss hnd st) h hnd hns hstd hmv hcov
+
+theorem minv_applyNs {A0 B0 : Module} {mv sv : List String} {ks : List Ns} {st : St} (ns : Ns) (h : MInv A0 B0 mv sv ks st)
+    (hns : ns ∈ ks) (hmv : ∀ t ∈ ns.tags, t ∉ mv) :
+    MInv A0 B0 (mv ++ ns.tags) sv ks (applyNs ns st) := by
   have hplans : (applyNs ns st).plans = st.plans := rfl
   have ha : (applyNs ns st).a = st.a ++ appendLoop (st.plan ns) [] (nsNodes ns st.b) := rfl
   have hL : ((nsNodes ns st.b).map (·.name)).Nodup := (names_nsNodes_perm ns st.b).symm.nodup (h.nu.ub ns)
@@ -1469,67 +2383,72 @@ theorem minv_applyNs {A0 B0 : Module} {mv : List String} {ks : List Ns} {st : St
     intro x hx hxt
     have hxb := mem_b_of_keep h hx (hmv _ hxt)
     have hxL : renAll st.plans x ∈ nsNodes ns st.b := mem_nsNodes.mpr ⟨hxb, hxt⟩
-    obtain ⟨ps, hps, hact, hrenT, hrenF⟩ := h.pend ns hns x hx hxt
-    rw [← St.plan_eq] at hact hrenT hrenF
-    cases hadd : needsAdd (nsNodes ns A0) (renAll ps x) with
+    obtain ⟨hact, hconf, hren⟩ := h.pend ns hns x hx hxt
+    rw [← St.plan_eq] at hact hconf hren
+    have hnm : (moved (st.plan ns) (renAll st.plans x)).name = rep st.plans ns x.name := rfl
+    -- the name under which `x` arrives, and A's namesake if `x` is renamed
+    have hform : (rep st.plans ns x.name = x.name ∨ ∃ k, 1 ≤ k ∧ rep st.plans ns x.name = mergeName x.name k) ∧
+        ((st.plan ns).ren.get x.name = none → rep st.plans ns x.name = x.name) := by
+      cases hg : (st.plan ns).ren.get x.name with
+      | none =>
+        have : rep st.plans ns x.name = x.name := by
+          show (st.plan ns).ren.app x.name = _
+          simp [Tbl.app, hg]
+        exact ⟨.inl this, fun _ => this⟩
+      | some f =>
+        obtain ⟨⟨k, hk1, hk2⟩, _⟩ := hren f hg
+        have : rep st.plans ns x.name = f := by
+          show (st.plan ns).ren.app x.name = _
+          simp [Tbl.app, hg]
+        exact ⟨.inr ⟨k, hk1, this.trans hk2⟩, fun h => by cases h⟩
+    have hnamesake : ∀ a0, lookup (nsNodes ns A0) x.name = some a0 → OwnOK (applyNs ns st).a ns x := by
+      intro a0 hl
+      obtain ⟨h1, h2⟩ := lookup_some hl
+      rw [← hO] at h1
+      obtain ⟨h1a, h1b⟩ := mem_nsNodes.mp h1
+      exact ⟨a0, ha ▸ List.mem_append_left _ h1a, h1b, h2⟩
+    cases hadd : (needsAdd (nsNodes ns A0) (renAll st.plans x) || ((st.plan ns).ren.get x.name).isSome) with
     | true =>
       rw [hadd] at hact
       have hin : moved (st.plan ns) (renAll st.plans x) ∈ (applyNs ns st).a := by
         rw [ha, heq]
         apply List.mem_append_right
         exact List.mem_map.mpr ⟨_, List.mem_filter.mpr ⟨hxL, by simp [isAdded, hact]⟩, rfl⟩
-      have hnm : (moved (st.plan ns) (renAll st.plans x)).name = rep st.plans ns x.name := rfl
-      have hpf := h.nu.pf ns
       have hxn : x.name ∈ names ns st.b := mem_names.mpr ⟨_, hxb, hxt, rfl⟩
       have hnot : rep st.plans ns x.name ∉ names ns A0 := by
-        have := app_not_mem hpf hxn hact
+        have := app_not_mem (h.nu.pf ns) hxn hact
         rw [names_eq_of_nsNodes_eq hO] at this
         exact this
-      cases hc : isConflict (nsNodes ns A0) (renAll ps x) with
-      | true =>
-        obtain ⟨k, hk1, hk2⟩ := hrenT hc
-        have hrep : rep st.plans ns x.name = mergeName x.name k := by
-          show (st.plan ns).ren.app x.name = _
-          simp [Tbl.app, hk2]
-        refine ⟨⟨_, hin, rfl, rfl, hnm, .inr ⟨k, hk1, hnm.trans hrep⟩, .inr ⟨hnm ▸ hnot, rfl⟩⟩, ?_⟩
-        -- A has a namesake
-        unfold isConflict at hc
-        cases hl : lookup (nsNodes ns A0) (renAll ps x).name with
-        | none => rw [hl] at hc; cases hc
-        | some a0 =>
-          obtain ⟨h1, h2⟩ := lookup_some hl
-          rw [← hO] at h1
-          obtain ⟨h1a, h1b⟩ := mem_nsNodes.mp h1
-          exact ⟨a0, ha ▸ List.mem_append_left _ h1a, h1b, h2⟩
-      | false =>
-        have hk2 := hrenF hc
-        have hrep : rep st.plans ns x.name = x.name := by
-          show (st.plan ns).ren.app x.name = _
-          simp [Tbl.app, hk2]
-        exact ⟨⟨_, hin, rfl, rfl, hnm, .inl (hnm.trans hrep), .inr ⟨hnm ▸ hnot, rfl⟩⟩,
-          ⟨_, hin, hxt, hnm.trans hrep⟩⟩
+      refine ⟨⟨_, hin, rfl, rfl, hnm, hnm ▸ hform.1, rfl, .inr (hnm ▸ hnot)⟩, ?_⟩
+      cases hl : lookup (nsNodes ns A0) x.name with
+      | some a0 => exact hnamesake a0 hl
+      | none =>
+        have hg : (st.plan ns).ren.get x.name = none := by
+          cases hg : (st.plan ns).ren.get x.name with
+          | none => rfl
+          | some f => have := (hren f hg).2; rw [hl] at this; cases this
+        exact ⟨_, hin, hxt, hnm.trans (hform.2 hg)⟩
     | false =>
-      unfold needsAdd at hadd
-      cases hl : lookup (nsNodes ns A0) (renAll ps x).name with
-      | none => rw [hl] at hadd; cases hadd
+      rw [Bool.or_eq_false_iff] at hadd
+      have hg : (st.plan ns).ren.get x.name = none := by
+        cases hg : (st.plan ns).ren.get x.name with
+        | none => rfl
+        | some f => rw [hg] at hadd; cases hadd.2
+      have hna := hadd.1
+      unfold needsAdd at hna
+      cases hl : lookup (nsNodes ns A0) (renAll st.plans x).name with
+      | none => rw [hl] at hna; cases hna
       | some a0 =>
-        rw [hl] at hadd
-        have e : a0 = renAll ps x := by simpa using hadd
+        rw [hl] at hna
+        have e : a0 = renAll st.plans x := by simpa using hna
         obtain ⟨h1, h2⟩ := lookup_some hl
         have h1' := h1
         rw [← hO] at h1'
-        obtain ⟨h1a, h1b⟩ := mem_nsNodes.mp h1'
-        have hc : isConflict (nsNodes ns A0) (renAll ps x) = false := by
-          unfold isConflict; rw [hl]; simp [e]
-        have hk2 := hrenF hc
-        have hrep : rep st.plans ns x.name = x.name := by
-          show (st.plan ns).ren.app x.name = _
-          simp [Tbl.app, hk2]
-        have hin : a0 ∈ (applyNs ns st).a := ha ▸ List.mem_append_left _ h1a
+        have hin : a0 ∈ (applyNs ns st).a := ha ▸ List.mem_append_left _ (mem_nsNodes.mp h1').1
         have hn : a0.name = x.name := h2
-        refine ⟨⟨a0, hin, by rw [e]; rfl, by rw [e]; rfl, hn.trans hrep.symm, .inl hn,
-          .inl ⟨(mem_nsNodes.mp h1).1, hn, ps, hps, e⟩⟩, ⟨a0, hin, h1b, hn⟩⟩
-  refine ⟨nuinv_applyNs ns h.nu, h.keys, h.nd, h.std, ?_, ?_, ?_, ?_, ?_, ?_, ?_, ?_⟩
+        exact ⟨⟨a0, hin, by rw [e]; rfl, by rw [e]; rfl, hn.trans (hform.2 hg).symm, .inl hn, by rw [e],
+          .inl ⟨(mem_nsNodes.mp h1).1, hn⟩⟩, hnamesake a0 hl⟩
+  refine ⟨nuinv_applyNs ns h.nu, h.keys, h.nd, h.std, ?_, ?_, h.ksv, h.settled, ?_, ?_, ?_, ?_, ?_, ?_⟩
   · obtain ⟨keep, hb, hk⟩ := h.bform
     refine ⟨fun x => !hasTag ns.tags x && keep x, ?_, ?_⟩
     · show st.b.filter (fun n => !hasTag ns.tags n) = _
@@ -1539,10 +2458,10 @@ theorem minv_applyNs {A0 B0 : Module} {mv : List String} {ks : List Ns} {st : St
       have h1 : x.tag ∉ mv := fun e => hxt (List.mem_append_left _ e)
       have h2 : x.tag ∉ ns.tags := fun e => hxt (List.mem_append_right _ e)
       simp [hk x hx h1, hasTag, h2]
-  · intro t ht site ns' hc
+  · intro t ht
     rcases List.mem_append.mp ht with h1 | h1
-    · exact h.settled t h1 site ns' hc
-    · exact covOK_spec hcov h1 hc
+    · exact h.msub t h1
+    · exact h.ksv ns hns t h1
   · intro ns' hall
     have hne : ns' ≠ ns := by
       intro e
@@ -1578,8 +2497,8 @@ theorem minv_applyNs {A0 B0 : Module} {mv : List String} {ks : List Ns} {st : St
       exact ⟨z, ha ▸ List.mem_append_left _ hz, hrest⟩
 
 /-- the passes without `calculate_item_actions`: B loses the kinds `tags`, A is extended (`Ext`) by nodes taken from B -/
-theorem minv_frame {A0 B0 : Module} {mv : List String} {ks : List Ns} {st st' : St} (tags : List String)
-    (h : MInv A0 B0 mv ks st) (hnu : NUInv st') (hp : st'.plans = st.plans)
+theorem minv_frame {A0 B0 : Module} {mv sv : List String} {ks : List Ns} {st st' : St} (tags : List String)
+    (h : MInv A0 B0 mv sv ks st) (hnu : NUInv st') (hp : st'.plans = st.plans)
     (q : Node → Bool) (hq : ∀ n n' : Node, n.tag = n'.tag → q n = q n') (hb : st'.b = st.b.filter q)
     (hqt : ∀ n, q n = false → n.tag ∈ tags)
     (hset : covOK tags ks = true)
@@ -1590,13 +2509,13 @@ theorem minv_frame {A0 B0 : Module} {mv : List String} {ks : List Ns} {st st' : 
         (y.tag ∈ tags ∧ ∃ x' ∈ st.b, x'.tag = y.tag ∧ r ∈ x'.refs))
     (hown : ∀ ns : Ns, ¬ ns.std → (∀ t ∈ ns.tags, t ∈ mv ++ tags) → ¬ (∀ t ∈ ns.tags, t ∈ mv) →
         ∀ x ∈ B0, x.tag ∈ ns.tags → OwnOK st'.a ns x) :
-    MInv A0 B0 (mv ++ tags) ks st' := by
+    MInv A0 B0 (mv ++ tags) (sv ++ tags) ks st' := by
   have hstdmv : ∀ ns : Ns, ns.std → (∀ t ∈ ns.tags, t ∈ mv ++ tags) → ∀ t ∈ ns.tags, t ∈ mv := by
     intro ns hs hall t ht
     rcases List.mem_append.mp (hall t ht) with h1 | h1
     · exact h1
     · exact absurd h1 (hstd ns hs t ht)
-  refine ⟨hnu, hp ▸ h.keys, h.nd, h.std, ?_, ?_, ?_, h.ext.trans hext, ?_, hp ▸ h.pend, ?_, ?_⟩
+  refine ⟨hnu, hp ▸ h.keys, h.nd, h.std, ?_, ?_, fun ns hn t ht => List.mem_append_left _ (h.ksv ns hn t ht), ?_, ?_, h.ext.trans hext, ?_, hp ▸ h.pend, ?_, ?_⟩
   · obtain ⟨keep, hb0, hk⟩ := h.bform
     refine ⟨fun x => q x && keep x, ?_, ?_⟩
     · rw [hb, hp, hb0, List.filter_map, List.filter_filter]
@@ -1612,6 +2531,10 @@ theorem minv_frame {A0 B0 : Module} {mv : List String} {ks : List Ns} {st st' : 
         | true => rfl
         | false => exact absurd (List.mem_append_right _ (hqt x hqx)) hxt
       simp [hk x hx h1, h2]
+  · intro t ht
+    rcases List.mem_append.mp ht with h1 | h1
+    · exact List.mem_append_left _ (h.msub t h1)
+    · exact List.mem_append_right _ h1
   · intro t ht site ns' hc
     rcases List.mem_append.mp ht with h1 | h1
     · exact h.settled t h1 site ns' hc
@@ -1660,20 +2583,20 @@ theorem filter_true_eq {α} : ∀ (l : List α), l = l.filter (fun _ => true)
   | x :: l => by rw [List.filter_cons_of_pos rfl, ← filter_true_eq l]
 
 /-- nothing happens (but the kinds `tags` count as handled) -/
-theorem minv_same {A0 B0 : Module} {mv : List String} {ks : List Ns} {st : St} (tags : List String)
-    (h : MInv A0 B0 mv ks st) (hset : covOK tags ks = true) (hno : ∀ t ∈ tags, NoNs t) :
-    MInv A0 B0 (mv ++ tags) ks st :=
+theorem minv_same {A0 B0 : Module} {mv sv : List String} {ks : List Ns} {st : St} (tags : List String)
+    (h : MInv A0 B0 mv sv ks st) (hset : covOK tags ks = true) (hno : ∀ t ∈ tags, NoNs t) :
+    MInv A0 B0 (mv ++ tags) (sv ++ tags) ks st :=
   minv_frame tags h h.nu rfl (fun _ => true) (fun _ _ _ => rfl) (filter_true_eq _) (fun _ h => by cases h) hset (hstd_noNs hno)
     (Ext.refl _) (fun _ _ => rfl) (fun y hy r hr => .inl ⟨y, hy, rfl, hr⟩) (hown_noNs hno)
 
 /-- nodes `e` of the kinds `tags` (unnamed kinds) are taken from B and appended -/
-theorem minv_append {A0 B0 : Module} {mv : List String} {ks : List Ns} {st st' : St} (tags : List String)
-    (h : MInv A0 B0 mv ks st) (hnu : NUInv st') (hp : st'.plans = st.plans) (e : Module) (ha : st'.a = st.a ++ e)
+theorem minv_append {A0 B0 : Module} {mv sv : List String} {ks : List Ns} {st st' : St} (tags : List String)
+    (h : MInv A0 B0 mv sv ks st) (hnu : NUInv st') (hp : st'.plans = st.plans) (e : Module) (ha : st'.a = st.a ++ e)
     (he : ∀ y ∈ e, y ∈ st.b ∧ y.tag ∈ tags)
     (q : Node → Bool) (hq : ∀ n n' : Node, n.tag = n'.tag → q n = q n') (hb : st'.b = st.b.filter q)
     (hqt : ∀ n, q n = false → n.tag ∈ tags)
     (hset : covOK tags ks = true) (hno : ∀ t ∈ tags, NoNs t) :
-    MInv A0 B0 (mv ++ tags) ks st' := by
+    MInv A0 B0 (mv ++ tags) (sv ++ tags) ks st' := by
   refine minv_frame tags h hnu hp q hq hb hqt hset (hstd_noNs hno) (ha ▸ Ext.append _ _) ?_ ?_ (hown_noNs hno)
   · intro ns hns
     rw [ha]
@@ -1698,9 +2621,9 @@ theorem filter_ne_tag_spec (tag : String) : (∀ n n' : Node, n.tag = n'.tag →
     (∀ n : Node, (n.tag != tag) = false → n.tag ∈ [tag]) :=
   ⟨fun n n' e => by rw [e], fun n hn => by simpa using hn⟩
 
-theorem minv_takeOpt {A0 B0 : Module} {mv : List String} {ks : List Ns} {st : St} (tag : String)
-    (h : MInv A0 B0 mv ks st) (hset : covOK [tag] ks = true) (hno : NoNs tag) :
-    MInv A0 B0 (mv ++ [tag]) ks (takeOpt tag st) := by
+theorem minv_takeOpt {A0 B0 : Module} {mv sv : List String} {ks : List Ns} {st : St} (tag : String)
+    (h : MInv A0 B0 mv sv ks st) (hset : covOK [tag] ks = true) (hno : NoNs tag) :
+    MInv A0 B0 (mv ++ [tag]) (sv ++ [tag]) ks (takeOpt tag st) := by
   have hno' : ∀ t ∈ [tag], NoNs t := fun t ht => (List.mem_singleton.mp ht) ▸ hno
   have hnu := nuinv_takeOpt hno h.nu
   rcases takeOpt_cases tag st with e | ⟨x, hx, hxt, e⟩
@@ -1710,9 +2633,9 @@ theorem minv_takeOpt {A0 B0 : Module} {mv : List String} {ks : List Ns} {st : St
       rw [List.mem_singleton.mp hy]; exact ⟨hx, by simp [hxt]⟩) _ (filter_ne_tag_spec tag).1 rfl
       (filter_ne_tag_spec tag).2 hset hno'
 
-theorem minv_takeAll {A0 B0 : Module} {mv : List String} {ks : List Ns} {st : St} (tag : String)
-    (h : MInv A0 B0 mv ks st) (hset : covOK [tag] ks = true) (hno : NoNs tag) :
-    MInv A0 B0 (mv ++ [tag]) ks (takeAll tag st) := by
+theorem minv_takeAll {A0 B0 : Module} {mv sv : List String} {ks : List Ns} {st : St} (tag : String)
+    (h : MInv A0 B0 mv sv ks st) (hset : covOK [tag] ks = true) (hno : NoNs tag) :
+    MInv A0 B0 (mv ++ [tag]) (sv ++ [tag]) ks (takeAll tag st) := by
   have hno' : ∀ t ∈ [tag], NoNs t := fun t ht => (List.mem_singleton.mp ht) ▸ hno
   have hnu := nuinv_takeAll hno h.nu
   unfold takeAll at hnu ⊢
@@ -1738,9 +2661,9 @@ theorem mergeModPar_cases (st : St) : mergeModPar st = st ∨
     · exact .inr (.inl ⟨x, List.mem_of_find?_eq_some hx, by simpa using List.find?_some hx, rfl⟩)
   · exact .inl rfl
 
-theorem minv_mergeModPar {A0 B0 : Module} {mv : List String} {ks : List Ns} {st : St}
-    (h : MInv A0 B0 mv ks st) (hset : covOK ["MOD_PAR"] ks = true) :
-    MInv A0 B0 (mv ++ ["MOD_PAR"]) ks (mergeModPar st) := by
+theorem minv_mergeModPar {A0 B0 : Module} {mv sv : List String} {ks : List Ns} {st : St}
+    (h : MInv A0 B0 mv sv ks st) (hset : covOK ["MOD_PAR"] ks = true) :
+    MInv A0 B0 (mv ++ ["MOD_PAR"]) (sv ++ ["MOD_PAR"]) ks (mergeModPar st) := by
   have hno : NoNs "MOD_PAR" := noNs_of_decide (by decide)
   have hno' : ∀ t ∈ ["MOD_PAR"], NoNs t := fun t ht => (List.mem_singleton.mp ht) ▸ hno
   have hnu := nuinv_mergeModPar h.nu
@@ -1771,9 +2694,9 @@ theorem foldl_preserves {β} (Q : Module → Prop) (g : Module → β → Module
   | b :: l, m, h, hg => foldl_preserves Q g l (g m b) (hg m b (List.mem_cons_self ..) h)
       (fun m b hb => hg m b (List.mem_cons_of_mem _ hb))
 
-theorem minv_mergeUserRights {A0 B0 : Module} {mv : List String} {ks : List Ns} {st : St}
-    (h : MInv A0 B0 mv ks st) (hset : covOK ["USER_RIGHTS"] ks = true) :
-    MInv A0 B0 (mv ++ ["USER_RIGHTS"]) ks (mergeUserRights st) := by
+theorem minv_mergeUserRights {A0 B0 : Module} {mv sv : List String} {ks : List Ns} {st : St}
+    (h : MInv A0 B0 mv sv ks st) (hset : covOK ["USER_RIGHTS"] ks = true) :
+    MInv A0 B0 (mv ++ ["USER_RIGHTS"]) (sv ++ ["USER_RIGHTS"]) ks (mergeUserRights st) := by
   have hno : NoNs "USER_RIGHTS" := noNs_of_decide (by decide)
   have hno' : ∀ t ∈ ["USER_RIGHTS"], NoNs t := fun t ht => (List.mem_singleton.mp ht) ▸ hno
   have hl : ∀ b ∈ st.b.filter (·.tag == "USER_RIGHTS"), b ∈ st.b ∧ b.tag = "USER_RIGHTS" := fun b hb => by
@@ -1866,10 +2789,10 @@ theorem byName_own (tag : String) (sites : List String) (htag : tag = "FUNCTION"
       exact ⟨z', hz', h1.trans hzt, h2.trans hzn⟩
     · exact byName_own tag sites htag l _ (fun b hb => hl b (List.mem_cons_of_mem _ hb)) b hb
 
-theorem minv_mergeByName {A0 B0 : Module} {mv : List String} {ks : List Ns} {st : St} (nsF : Ns) (tag : String)
+theorem minv_mergeByName {A0 B0 : Module} {mv sv : List String} {ks : List Ns} {st : St} (nsF : Ns) (tag : String)
     (sites : List String) (hns : nsF.tags = [tag]) (hnstd : ¬ nsF.std) (htag : tag = "FUNCTION" ∨ tag = "GROUP")
-    (h : MInv A0 B0 mv ks st) (hset : covOK [tag] ks = true) (hmv : tag ∉ mv) :
-    MInv A0 B0 (mv ++ [tag]) ks (mergeByName tag sites st) := by
+    (h : MInv A0 B0 mv sv ks st) (hset : covOK [tag] ks = true) (hmv : tag ∉ mv) :
+    MInv A0 B0 (mv ++ [tag]) (sv ++ [tag]) ks (mergeByName tag sites st) := by
   have hl : ∀ b ∈ st.b.filter (·.tag == tag), b ∈ st.b ∧ b.tag = tag := fun b hb => by
     have := List.mem_filter.mp hb
     exact ⟨this.1, by simpa using this.2⟩
@@ -1933,7 +2856,7 @@ theorem minv_mergeByName {A0 B0 : Module} {mv : List String} {ks : List Ns} {st 
     obtain ⟨z, hz, hzt, hzn⟩ := byName_own tag sites htag _ st.a (fun b hb => (hl b hb).2) _ hxl
     exact ⟨z, hz, by rw [hzt, hns]; exact List.mem_singleton.mpr rfl, hzn⟩
 
-theorem minv_init {a b : Module} (ha : UniqueNames a) (hb : UniqueNames b) : MInv a b [] [] ⟨a, b, []⟩ where
+theorem minv_init {a b : Module} (ha : UniqueNames a) (hb : UniqueNames b) : MInv a b [] [] [] ⟨a, b, []⟩ where
   nu := ⟨ha, hb, fun _ => PlanFacts.empty _ _⟩
   keys := rfl
   nd := List.nodup_nil
@@ -1941,6 +2864,8 @@ theorem minv_init {a b : Module} (ha : UniqueNames a) (hb : UniqueNames b) : MIn
   bform := ⟨fun _ => true, by
     show b = _
     rw [← filter_true_eq, List.map_congr_left (g := id) (fun x _ => renAll_nil x), List.map_id], fun _ _ _ => rfl⟩
+  msub _ h := by cases h
+  ksv _ h := by cases h
   settled _ h := by cases h
   aframe _ _ := rfl
   ext := Ext.refl _
@@ -1960,33 +2885,32 @@ def finalMoved : List String :=
 def finalKeys : List Ns := [.transformer, .frame, .typedef, .object, .recordLayout, .compuMethod, .compuTab, .unit]
 
 theorem minv_mergeSt {a b : Module} (ha : UniqueNames a) (hb : UniqueNames b) :
-    MInv a b finalMoved finalKeys (mergeSt a b) := by
+    ∃ sv, MInv a b finalMoved sv finalKeys (mergeSt a b) := by
   have h := minv_init ha hb
   have h := minv_takeOpt "A2ML" h (by decide) (noNs_of_decide (by decide))
   have h := minv_mergeModPar h (by decide)
   have h := minv_takeAll "IF_DATA" h (by decide) (noNs_of_decide (by decide))
-  have h := minv_planNs .unit h (by decide) (by decide) (by decide)
-  have h := minv_applyNs .unit h (by decide) (by decide) (by decide)
-  have h := minv_planNs .compuTab h (by decide) (by decide) (by decide)
-  have h := minv_applyNs .compuTab h (by decide) (by decide) (by decide)
-  have h := minv_planNs .compuMethod h (by decide) (by decide) (by decide)
-  have h := minv_applyNs .compuMethod h (by decide) (by decide) (by decide)
-  have h := minv_planNs .recordLayout h (by decide) (by decide) (by decide)
-  have h := minv_applyNs .recordLayout h (by decide) (by decide) (by decide)
+  have h := minv_planLoop [.unit] h (by decide) (by decide) (by decide) (by decide) (by decide)
+  have h := minv_applyNs .unit h (by decide) (by decide)
+  have h := minv_planNs .compuTab h (by decide) (by decide) (by decide) (by decide) (by decide)
+  have h := minv_applyNs .compuTab h (by decide) (by decide)
+  have h := minv_planNs .compuMethod h (by decide) (by decide) (by decide) (by decide) (by decide)
+  have h := minv_applyNs .compuMethod h (by decide) (by decide)
+  have h := minv_planNs .recordLayout h (by decide) (by decide) (by decide) (by decide) (by decide)
+  have h := minv_applyNs .recordLayout h (by decide) (by decide)
   have h := minv_takeOpt "MOD_COMMON" h (by decide) (noNs_of_decide (by decide))
-  have h := minv_planNs .object h (by decide) (by decide) (by decide)
-  have h := minv_planNs .typedef h (by decide) (by decide) (by decide)
-  have h := minv_applyNs .object h (by decide) (by decide) (by decide)
-  have h := minv_applyNs .typedef h (by decide) (by decide) (by decide)
+  have h := minv_planLoop [.object, .typedef] h (by decide) (by decide) (by decide) (by decide) (by decide)
+  have h := minv_applyNs .object h (by decide) (by decide)
+  have h := minv_applyNs .typedef h (by decide) (by decide)
   have h := minv_mergeByName .function "FUNCTION" functionSites rfl (by decide) (.inl rfl) h (by decide) (by decide)
   have h := minv_mergeByName .group "GROUP" groupSites rfl (by decide) (.inr rfl) h (by decide) (by decide)
-  have h := minv_planNs .frame h (by decide) (by decide) (by decide)
-  have h := minv_applyNs .frame h (by decide) (by decide) (by decide)
-  have h := minv_planNs .transformer h (by decide) (by decide) (by decide)
-  have h := minv_applyNs .transformer h (by decide) (by decide) (by decide)
+  have h := minv_planNs .frame h (by decide) (by decide) (by decide) (by decide) (by decide)
+  have h := minv_applyNs .frame h (by decide) (by decide)
+  have h := minv_planLoop [.transformer] h (by decide) (by decide) (by decide) (by decide) (by decide)
+  have h := minv_applyNs .transformer h (by decide) (by decide)
   have h := minv_mergeUserRights h (by decide)
   have h := minv_takeOpt "VARIANT_CODING" h (by decide) (noNs_of_decide (by decide))
-  exact h
+  exact ⟨_, h⟩
 
 theorem std_mem_finalKeys {ns : Ns} (h : ns.std) : ns ∈ finalKeys := by
   obtain ⟨h1, h2⟩ := h
@@ -2051,7 +2975,7 @@ theorem names_subset_of_ext {m m' : Module} (h : Ext m m') (ns : Ns) {s : String
 
 theorem resolved_mergeSt {a b : Module} (ha : UniqueNames a) (hb : UniqueNames b) (hra : Resolved a) (hrb : Resolved b) :
     Resolved (mergeSt a b).a := by
-  have h := minv_mergeSt ha hb
+  obtain ⟨sv, h⟩ := minv_mergeSt ha hb
   intro n hn r hr ns hns
   rcases h.prov n hn r hr with ⟨a0, ha0, ha0t, ha0r⟩ | ⟨_, x, hx, hxt, hxr⟩
   · exact names_subset_of_ext h.ext ns (hra a0 ha0 r ha0r ns (ha0t ▸ hns))
@@ -2071,6 +2995,7 @@ theorem resolved_mergeSt {a b : Module} (ha : UniqueNames a) (hb : UniqueNames b
       rw [repRef_of_none hc]
       obtain ⟨z, hz, hzt, hzn⟩ := h.own ns (tags_mem_finalMoved ns) x2 hx2 hx2t
       exact mem_names.mpr ⟨z, hz, hzt, hzn.trans hx2n⟩
+
 
 
 /-! ## Special cases of the merge: B empty, B = A, A empty (C08.5) -/
@@ -2097,6 +3022,11 @@ theorem noop_takeAll (tag : String) : NoopOnEmpty (takeAll tag) := by
   · simp [hb]
 theorem noop_planNs (ns : Ns) : NoopOnEmpty (planNs ns) := by
   intro st hb; unfold planNs; simp [hb]
+theorem noop_planLoop (nss : List Ns) (hn : nss.Nodup) : NoopOnEmpty (planLoop nss) := by
+  intro st hb
+  refine ⟨rfl, ?_⟩
+  have := (planLoop_spec nss hn st).b_eq [] [] (by rw [hb]; rfl) (fun _ _ h => by cases h)
+  rw [this]; rfl
 theorem noop_applyNs (ns : Ns) : NoopOnEmpty (applyNs ns) := by
   intro st hb; unfold applyNs; simp [hb, nsNodes_nil, appendLoop]
 theorem noop_mergeByName (tag : String) (sites : List String) : NoopOnEmpty (mergeByName tag sites) := by
@@ -2112,17 +3042,17 @@ theorem mergeSt_empty_right (a : Module) : (mergeSt a []).a = a := by
   have h := (noop_takeOpt "A2ML").step h
   have h := noop_mergeModPar.step h
   have h := (noop_takeAll "IF_DATA").step h
-  have h := (noop_applyNs .unit).step ((noop_planNs .unit).step h)
+  have h := (noop_applyNs .unit).step ((noop_planLoop [.unit] (by decide)).step h)
   have h := (noop_applyNs .compuTab).step ((noop_planNs .compuTab).step h)
   have h := (noop_applyNs .compuMethod).step ((noop_planNs .compuMethod).step h)
   have h := (noop_applyNs .recordLayout).step ((noop_planNs .recordLayout).step h)
   have h := (noop_takeOpt "MOD_COMMON").step h
-  have h := (noop_planNs .typedef).step ((noop_planNs .object).step h)
+  have h := (noop_planLoop [.object, .typedef] (by decide)).step h
   have h := (noop_applyNs .typedef).step ((noop_applyNs .object).step h)
   have h := (noop_mergeByName "FUNCTION" functionSites).step h
   have h := (noop_mergeByName "GROUP" groupSites).step h
   have h := (noop_applyNs .frame).step ((noop_planNs .frame).step h)
-  have h := (noop_applyNs .transformer).step ((noop_planNs .transformer).step h)
+  have h := (noop_applyNs .transformer).step ((noop_planLoop [.transformer] (by decide)).step h)
   have h := noop_mergeUserRights.step h
   have h := (noop_takeOpt "VARIANT_CODING").step h
   exact h.1
@@ -2324,6 +3254,25 @@ theorem sinv_planNs {a0 : Module} {mv : List String} {st : St} (ns : Ns) (hu : U
     rw [St.plan_cons_ne e _ _ _ st.a st.b]
     exact h.sp ns' x hx
 
+theorem sinv_no_ren {a0 : Module} {mv : List String} {st : St} (ns : Ns) (hu : UniqueNames a0) (h : SInv a0 mv st)
+    (hmv : ∀ t ∈ ns.tags, t ∉ mv) : (calcActions (nsNodes ns st.a) (nsNodes ns st.b)).ren = [] := by
+  have hM : nsNodes ns st.b = nsNodes ns a0 := by rw [h.sb]; exact nsNodes_filter_keep a0 hmv
+  have hnd : ((nsNodes ns a0).map (·.name)).Nodup := (names_nsNodes_perm ns a0).symm.nodup (hu ns)
+  have hnc : ∀ m ∈ nsNodes ns a0, isConflict (nsNodes ns a0) m = false := by
+    intro m hm; unfold isConflict; rw [lookup_self_of_nodup hnd hm]; simp
+  rw [h.sa, hM]; exact calc_ren_of_no_conflict _ _ _ _ hnc
+
+theorem sinv_planLoop1 {a0 : Module} {mv : List String} {st : St} (ns : Ns) (hu : UniqueNames a0) (h : SInv a0 mv st)
+    (hmv : ∀ t ∈ ns.tags, t ∉ mv) : SInv a0 mv (planLoop [ns] st) := by
+  rw [planLoop_single_of_no_ren ns st (sinv_no_ren ns hu h hmv)]
+  exact sinv_planNs ns hu h hmv
+
+theorem sinv_planLoop2 {a0 : Module} {mv : List String} {st : St} (n₁ n₂ : Ns) (hne : n₁ ≠ n₂) (hu : UniqueNames a0)
+    (h : SInv a0 mv st) (hmv₁ : ∀ t ∈ n₁.tags, t ∉ mv) (hmv₂ : ∀ t ∈ n₂.tags, t ∉ mv) : SInv a0 mv (planLoop [n₁, n₂] st) := by
+  have h1 := sinv_planNs n₁ hu h hmv₁
+  rw [planLoop_pair_of_no_ren n₁ n₂ hne st (sinv_no_ren n₁ hu h hmv₁) (sinv_no_ren n₂ hu h1 hmv₂)]
+  exact sinv_planNs n₂ hu h1 hmv₂
+
 theorem sinv_applyNs {a0 : Module} {mv : List String} {st : St} (ns : Ns) (h : SInv a0 mv st) :
     SInv a0 (mv ++ ns.tags) (applyNs ns st) := by
   refine ⟨?_, ?_, ?_⟩
@@ -2391,17 +3340,17 @@ theorem mergeSt_self (a : Module) (hu : UniqueNames a) : (mergeSt a a).a = a := 
   have h := sinv_takeOpt "A2ML" h
   have h := sinv_mergeModPar h (by decide)
   have h := sinv_takeAll "IF_DATA" h
-  have h := sinv_applyNs .unit (sinv_planNs .unit hu h (by decide))
+  have h := sinv_applyNs .unit (sinv_planLoop1 .unit hu h (by decide))
   have h := sinv_applyNs .compuTab (sinv_planNs .compuTab hu h (by decide))
   have h := sinv_applyNs .compuMethod (sinv_planNs .compuMethod hu h (by decide))
   have h := sinv_applyNs .recordLayout (sinv_planNs .recordLayout hu h (by decide))
   have h := sinv_takeOpt "MOD_COMMON" h
-  have h := sinv_planNs .typedef hu (sinv_planNs .object hu h (by decide)) (by decide)
+  have h := sinv_planLoop2 .object .typedef (by decide) hu h (by decide) (by decide)
   have h := sinv_applyNs .typedef (sinv_applyNs .object h)
   have h := sinv_mergeByName .function "FUNCTION" functionSites rfl hu h
   have h := sinv_mergeByName .group "GROUP" groupSites rfl hu h
   have h := sinv_applyNs .frame (sinv_planNs .frame hu h (by decide))
-  have h := sinv_applyNs .transformer (sinv_planNs .transformer hu h (by decide))
+  have h := sinv_applyNs .transformer (sinv_planLoop1 .transformer hu h (by decide))
   have h := sinv_mergeUserRights h
   have h := sinv_takeOpt "VARIANT_CODING" h
   exact h.sa
@@ -2615,6 +3564,27 @@ theorem einv_planNs {b0 : Module} {mv : List String} {ks : List Ns} {st : St} (n
     · exact absurd h1.symm e
     · exact h.ep ns' h1
 
+theorem einv_no_ren {b0 : Module} {mv : List String} {ks : List Ns} {st : St} (ns : Ns) (h : EInv b0 mv ks st)
+    (hmv : ∀ t ∈ ns.tags, t ∉ mv) : (calcActions (nsNodes ns st.a) (nsNodes ns st.b)).ren = [] := by
+  have hO : nsNodes ns st.a = [] := by
+    apply List.eq_nil_iff_forall_not_mem.mpr
+    intro y hy
+    obtain ⟨hya, hyt⟩ := mem_nsNodes.mp hy
+    exact einv_no_tag h (hmv _ hyt) y hya rfl
+  rw [hO]; exact calc_ren_of_no_conflict _ _ _ _ (fun m _ => rfl)
+
+theorem einv_planLoop1 {b0 : Module} {mv : List String} {ks : List Ns} {st : St} (ns : Ns) (h : EInv b0 mv ks st)
+    (hmv : ∀ t ∈ ns.tags, t ∉ mv) : EInv b0 mv (ns :: ks) (planLoop [ns] st) := by
+  rw [planLoop_single_of_no_ren ns st (einv_no_ren ns h hmv)]
+  exact einv_planNs ns h hmv
+
+theorem einv_planLoop2 {b0 : Module} {mv : List String} {ks : List Ns} {st : St} (n₁ n₂ : Ns) (hne : n₁ ≠ n₂)
+    (h : EInv b0 mv ks st) (hmv₁ : ∀ t ∈ n₁.tags, t ∉ mv) (hmv₂ : ∀ t ∈ n₂.tags, t ∉ mv) :
+    EInv b0 mv (n₂ :: n₁ :: ks) (planLoop [n₁, n₂] st) := by
+  have h1 := einv_planNs n₁ h hmv₁
+  rw [planLoop_pair_of_no_ren n₁ n₂ hne st (einv_no_ren n₁ h hmv₁) (einv_no_ren n₂ h1 hmv₂)]
+  exact einv_planNs n₂ h1 hmv₂
+
 theorem einv_applyNs {b0 : Module} {mv : List String} {ks : List Ns} {st : St} (ns : Ns) (h : EInv b0 mv ks st)
     (hns : ns ∈ ks) (hmv : ∀ t ∈ ns.tags, t ∉ mv) : EInv b0 (mv ++ ns.tags) ks (applyNs ns st) := by
   obtain ⟨h1, h2⟩ := h.ep ns hns
@@ -2693,17 +3663,17 @@ theorem mergeSt_empty_left (b : Module) (hw : WellFormedB b) : (mergeSt [] b).a 
   have h := einv_takeOpt "A2ML" h (by decide) (hw.single _ (by decide))
   have h := einv_mergeModPar h (by decide) (hw.single _ (by decide))
   have h := einv_takeAll "IF_DATA" h (by decide)
-  have h := einv_applyNs .unit (einv_planNs .unit h (by decide)) (by decide) (by decide)
+  have h := einv_applyNs .unit (einv_planLoop1 .unit h (by decide)) (by decide) (by decide)
   have h := einv_applyNs .compuTab (einv_planNs .compuTab h (by decide)) (by decide) (by decide)
   have h := einv_applyNs .compuMethod (einv_planNs .compuMethod h (by decide)) (by decide) (by decide)
   have h := einv_applyNs .recordLayout (einv_planNs .recordLayout h (by decide)) (by decide) (by decide)
   have h := einv_takeOpt "MOD_COMMON" h (by decide) (hw.single _ (by decide))
-  have h := einv_planNs .typedef (einv_planNs .object h (by decide)) (by decide)
+  have h := einv_planLoop2 .object .typedef (by decide) h (by decide) (by decide)
   have h := einv_applyNs .typedef (einv_applyNs .object h (by decide) (by decide)) (by decide) (by decide)
   have h := einv_mergeByName "FUNCTION" functionSites h (by decide) hw.fn
   have h := einv_mergeByName "GROUP" groupSites h (by decide) hw.grp
   have h := einv_applyNs .frame (einv_planNs .frame h (by decide)) (by decide) (by decide)
-  have h := einv_applyNs .transformer (einv_planNs .transformer h (by decide)) (by decide) (by decide)
+  have h := einv_applyNs .transformer (einv_planLoop1 .transformer h (by decide)) (by decide) (by decide)
   have h := einv_mergeUserRights h (by decide) hw.ur
   have h := einv_takeOpt "VARIANT_CODING" h (by decide) (hw.single _ (by decide))
   exact h.ea
@@ -2743,5 +3713,6 @@ def nvA : Module :=
 def nvB : Module :=
   [⟨"COMPU_METHOD", "cm", "c2", []⟩, ⟨"MEASUREMENT", "m", "h1", [⟨"Measurement.conversion", "cm"⟩]⟩,
    ⟨"FUNCTION", "f", "hf", [⟨"OutMeasurement.identifier_list", "m"⟩, ⟨"SubFunction.identifier_list", "f"⟩]⟩]
+
 
 end A2l.Mg
